@@ -1,4 +1,1992 @@
-//! C08 — stub, not built yet.
+//! C08 — no source text, input or API call sequence can crash the interpreter.
+//!
+//! THIS IS SEARCH, NOT PROOF. The theorems of this property (lean/XehModel/Props/C08.lean) cover only
+//! the modelled functions; everything else — host stack exhaustion, allocator aborts, panics inside
+//! dependencies, every unmodelled word — is reached only by the exploration below:
+//!
+//! 1. word × arguments: for every word of `word_list()` (read at run time, d2 plugin included) all
+//!    combinations of argument values up to arity 3 (sampled in the quick tier, see `plan_words`),
+//!    pushed with `push_data`, the word evaluated with `eval`, recording on and off, fresh and
+//!    prepared interpreter state, followed by the error-formatting / stepping API;
+//! 2. texts: token soups over the complete dictionary, structured programs with mutations, the `let`
+//!    pattern grammar, `enum`, meta-evaluation, deep nesting, unterminated literals, arbitrary UTF-8,
+//!    driven through `eval`, `compile`+`run`, `compile`+`next`*, `rnext`*, interleaved with
+//!    `pretty_error`, `last_err_location`, `format_cell(_safe)`, `fmt_opcode`, `set_binary_input`;
+//! 3. every batch of cases runs in a child process (this binary re-executed with the tier argument
+//!    `child:<batch file>`), so a stack overflow or an allocator abort kills only the child; the parent
+//!    identifies the in-flight case from the child's progress log, confirms it alone (bisecting the
+//!    batch prefix when it does not reproduce alone) and records it as an oracle failure;
+//! 4. correspondence (small): `C08 arith <word> <cells>` → outcome class `ok|err|panic`.
+//!
+//! Excluded (and counted in the histogram): `write-all` / `exec-piped` (outside world; shadowed by
+//! harmless definitions in the children), allocation-size arguments above ~10^6 (`skipped:alloc`),
+//! allocator aborts of looping programs that grow a value without bound (`skipped:alloc-growth`).
+use super::gen::*;
+use crate::canon;
+use crate::rng::Rng;
 use crate::Ctx;
+use std::collections::BTreeMap;
+use std::io::Write;
+use xeh::prelude::*;
 
-pub fn run(_ctx: &mut Ctx) {}
+const INSN_LIMIT: usize = 20_000;
+const STACK_LIMIT: usize = 1000;
+const HEAP_LIMIT: usize = 5000;
+const ALLOC_MAX: i128 = 1_000_000;
+const DESTRUCTIVE: &[&str] = &["write-all", "exec-piped"];
+
+// ------------------------------------------------------------------------------------------------
+// escaping of case lines (one case per line, fields separated by TAB)
+// ------------------------------------------------------------------------------------------------
+fn esc(s: &str) -> String {
+    let mut o = String::with_capacity(s.len());
+    for c in s.chars() {
+        match c {
+            '\\' => o.push_str("\\\\"),
+            '\t' => o.push_str("\\t"),
+            '\n' => o.push_str("\\n"),
+            '\r' => o.push_str("\\r"),
+            c => o.push(c),
+        }
+    }
+    o
+}
+
+fn unesc(s: &str) -> String {
+    let mut o = String::with_capacity(s.len());
+    let mut it = s.chars();
+    while let Some(c) = it.next() {
+        if c == '\\' {
+            match it.next() {
+                Some('t') => o.push('\t'),
+                Some('n') => o.push('\n'),
+                Some('r') => o.push('\r'),
+                Some(c) => o.push(c),
+                None => (),
+            }
+        } else {
+            o.push(c);
+        }
+    }
+    o
+}
+
+// ------------------------------------------------------------------------------------------------
+// argument values: (class, name, cell, xeh source that builds it — for witnesses)
+// ------------------------------------------------------------------------------------------------
+pub struct Val {
+    class: &'static str,
+    name: String,
+    cell: Cell,
+    src: String,
+}
+
+fn bits_from(bytes: Vec<u8>, start: usize, len: usize) -> Xbitstr {
+    let bs = Xbitstr::from(bytes);
+    let mut s = bs.seek(start).unwrap();
+    s.read(len).unwrap()
+}
+
+fn fmt_tagged(c: Cell, v: Cell) -> Cell {
+    c.insert_tag(Cell::from("#fmt"), v)
+}
+
+pub fn values() -> Vec<Val> {
+    let mut v: Vec<Val> = Vec::new();
+    let mut add = |class: &'static str, name: &str, cell: Cell, src: &str| v.push(Val { class, name: format!("{}:{}", class, name), cell, src: src.to_string() });
+    add("nil", "nil", Cell::Nil, "nil");
+    add("flag", "true", Cell::Flag(true), "true");
+    add("flag", "false", Cell::Flag(false), "false");
+    for i in [0i128, 1, 2, 7, 8, 10, 32, 64, 255] {
+        add("int-small", &i.to_string(), Cell::Int(i), &i.to_string());
+    }
+    for i in [-1i128, -2, -8, -129] {
+        add("int-neg", &i.to_string(), Cell::Int(i), &i.to_string());
+    }
+    let huge: &[(&str, i128)] = &[
+        ("65535", 65535),
+        ("65536", 65536),
+        ("10^6", 1_000_000),
+        ("2^31", 1 << 31),
+        ("2^32", 1 << 32),
+        ("isize-max", isize::MAX as i128),
+        ("2^63", 1 << 63),
+        ("usize-max", usize::MAX as i128),
+        ("2^64", 1 << 64),
+        ("2^127-1", i128::MAX),
+    ];
+    for (n, i) in huge {
+        add("int-huge", n, Cell::Int(*i), &i.to_string());
+    }
+    let hneg: &[(&str, i128)] = &[("isize-min", isize::MIN as i128), ("-2^63-1", -(1i128 << 63) - 1), ("i128-min", i128::MIN), ("-65536", -65536)];
+    for (n, i) in hneg {
+        add("int-hugeneg", n, Cell::Int(*i), &if *i == i128::MIN { "-170141183460469231731687303715884105727 1 -".to_string() } else { i.to_string() });
+    }
+    let reals: &[(&str, f64, &str)] = &[
+        ("0", 0.0, "0.0"),
+        ("-0", -0.0, "-0.0"),
+        ("nan", f64::NAN, "0.0 0.0 /"),
+        ("inf", f64::INFINITY, "1e999 (unparsable: push via API)"),
+        ("-inf", f64::NEG_INFINITY, "(push via API)"),
+        ("subnormal", 5e-324, "(push via API)"),
+        ("1e300", 1e300, "1e300 (push via API)"),
+        ("1.5", 1.5, "1.5"),
+        ("-2.5", -2.5, "-2.5"),
+        ("2^64", 18446744073709551616.0, "18446744073709551616.0"),
+    ];
+    for (n, r, s) in reals {
+        add("real", n, Cell::Real(*r), s);
+    }
+    let long_mb: String = std::iter::repeat('é').take(40).collect();
+    let long_ascii: String = (0..100).map(|i| (b'a' + (i % 26) as u8) as char).collect();
+    let strs: Vec<(&str, String)> = vec![
+        ("empty", "".into()),
+        ("a", "a".into()),
+        ("abc", "abc".into()),
+        ("e-acute", "é".into()),
+        ("cjk-emoji", "日本語😀".into()),
+        ("40xe-acute", long_mb.clone()),
+        ("12", "12".into()),
+        ("ff", "ff".into()),
+        ("0x1f", "0x1f".into()),
+        ("1.5", "1.5".into()),
+        ("newline", "a\nb".into()),
+        ("ascii100", long_ascii.clone()),
+        ("nul", "a\0b".into()),
+        ("base64", "QTE=".into()),
+        ("z85", "HelloWorld".into()),
+    ];
+    for (n, s) in &strs {
+        add("str", n, Cell::from(s.clone()), &format!("{:?}", s));
+    }
+    let bss: Vec<(&str, Xbitstr, &str)> = vec![
+        ("empty", Xbitstr::new(), "| |"),
+        ("ff", Xbitstr::from(vec![0xffu8]), "|ff|"),
+        ("8bytes", Xbitstr::from(vec![1u8, 2, 3, 4, 5, 6, 7, 0]), "|0102030405060700|"),
+        ("3bits", bits_from(vec![0xa0], 0, 3), "|x.x|"),
+        ("13bits@3", bits_from(vec![0xde, 0xad, 0xbe], 3, 13), "|deadbe| open-bitstr 3 bits drop 13 bits"),
+        ("128bits", Xbitstr::from(vec![0x80u8; 16]), "(16 bytes 0x80)"),
+        ("129bits", bits_from(vec![0xff; 17], 0, 129), "(129 one bits)"),
+        ("4096bits", Xbitstr::from((0..512).map(|i| i as u8).collect::<Vec<u8>>()), "(512 bytes)"),
+        ("1000bits@3", bits_from((0..200).map(|i| (i * 7) as u8).collect(), 3, 1000), "(1000 bits starting at bit 3)"),
+        ("utf8", Xbitstr::from("héllo".as_bytes().to_vec()), "\"héllo\" >bitstr"),
+        ("bad-utf8", Xbitstr::from(vec![0x61, 0xff, 0xfe, 0x62]), "|61fffe62|"),
+        ("8bits@4", bits_from(vec![0x12, 0x34], 4, 8), "|1234| open-bitstr 4 bits drop 8 bits"),
+    ];
+    for (n, b, s) in bss {
+        add("bitstr", n, Cell::Bitstr(b), s);
+    }
+    let ints = |xs: &[i128]| {
+        let mut v = Xvec::new();
+        for x in xs {
+            v.push_back_mut(Cell::Int(*x));
+        }
+        v
+    };
+    let mut nested = Xvec::new();
+    nested.push_back_mut(Cell::Vector(ints(&[1])));
+    {
+        let mut inner = Xvec::new();
+        inner.push_back_mut(Cell::Vector(ints(&[2])));
+        nested.push_back_mut(Cell::Vector(inner));
+    }
+    let mut mixed = Xvec::new();
+    for c in [Cell::Int(1), Cell::from("a"), Cell::Real(2.0), Cell::Nil, Cell::Bitstr(Xbitstr::from(vec![0xffu8])), Cell::Flag(true)] {
+        mixed.push_back_mut(c);
+    }
+    let mut strsv = Xvec::new();
+    for s in ["b", "a", "é", ""] {
+        strsv.push_back_mut(Cell::from(s));
+    }
+    let mut mixed30 = Xvec::new();
+    let mut mixed30_src = String::from("[ ");
+    {
+        let mut r = Rng::new(0xC08);
+        for _ in 0..34 {
+            match r.below(3) {
+                0 => {
+                    let x = r.below(10) as i128;
+                    mixed30.push_back_mut(Cell::Int(x));
+                    mixed30_src.push_str(&format!("{} ", x));
+                }
+                1 => {
+                    let c = ((b'a' + r.below(6) as u8) as char).to_string();
+                    mixed30_src.push_str(&format!("\"{}\" ", c));
+                    mixed30.push_back_mut(Cell::from(c));
+                }
+                _ => {
+                    let x = r.below(5) as f64 + 0.5;
+                    mixed30.push_back_mut(Cell::Real(x));
+                    mixed30_src.push_str(&format!("{:?} ", x));
+                }
+            }
+        }
+    }
+    mixed30_src.push(']');
+    let mut reals_v = Xvec::new();
+    for r in [1.0, f64::NAN, -1.0, f64::NAN, 0.0, -0.0, f64::INFINITY] {
+        reals_v.push_back_mut(Cell::Real(r));
+    }
+    let vecs: Vec<(&str, Xvec, String)> = vec![
+        ("empty", Xvec::new(), "[ ]".into()),
+        ("123", ints(&[1, 2, 3]), "[ 1 2 3 ]".into()),
+        ("nested", nested, "[ [ 1 ] [ [ 2 ] ] ]".into()),
+        ("mixed", mixed, "[ 1 \"a\" 2.0 nil |ff| true ]".into()),
+        ("bytes", ints(&[0, 255, 65]), "[ 0 255 65 ]".into()),
+        ("strs", strsv, "[ \"b\" \"a\" \"é\" \"\" ]".into()),
+        ("100ints", ints(&(0..100).map(|i| (i * 37) % 101 - 50).collect::<Vec<i128>>()), "(100 ints)".into()),
+        ("mixed34", mixed30, mixed30_src),
+        ("reals-nan", reals_v, "(reals with NaNs)".into()),
+        ("huge-ints", ints(&[i128::MIN, i128::MAX, usize::MAX as i128, -1]), "(boundary ints)".into()),
+    ];
+    for (n, x, s) in vecs {
+        add("vec", n, Cell::Vector(x), &s);
+    }
+    let mut m1 = Xmap::new();
+    m1.insert_mut(Cell::from("a"), Cell::Int(1));
+    let mut m2 = Xmap::new();
+    m2.insert_mut(Cell::from("k"), Cell::Int(1));
+    m2.insert_mut(Cell::from("j"), Cell::Int(2));
+    let mut m3 = Xmap::new();
+    for (i, k) in [Cell::Int(3), Cell::from("x"), Cell::Int(1), Cell::from("b"), Cell::Nil, Cell::Real(1.0), Cell::Int(2), Cell::from("a")].into_iter().enumerate() {
+        m3.insert_mut(k, Cell::Int(i as i128));
+    }
+    let mut m4 = Xmap::new();
+    m4.insert_mut(Cell::Int(0), Cell::Map(m1.clone()));
+    m4.insert_mut(Cell::Int(1), Cell::Vector(ints(&[1, 2])));
+    let mut m5 = Xmap::new();
+    for i in 0..40i128 {
+        m5.insert_mut(Cell::Int(i), Cell::Int(i * i));
+    }
+    let maps: Vec<(&str, Xmap, &str)> = vec![
+        ("empty", Xmap::new(), "{ }"),
+        ("a1", m1, "{ 1 \"a\" }"),
+        ("kj", m2, "{ 1 \"k\" 2 \"j\" }"),
+        ("mixed-keys", m3, "{ 0 3 1 \"x\" 2 1 3 \"b\" 4 nil 5 1.0 6 2 7 \"a\" }"),
+        ("nested", m4, "{ { 1 \"a\" } 0 [ 1 2 ] 1 }"),
+        ("40", m5, "(40 int keys)"),
+    ];
+    for (n, m, s) in maps {
+        add("map", n, Cell::Map(m), s);
+    }
+    let tg: Vec<(&str, Cell, &str)> = vec![
+        ("int-fmt16", fmt_tagged(Cell::Int(255), Cell::Int(16)), "255 ^hex"),
+        ("str-fmt99", fmt_tagged(Cell::from("zz"), Cell::Int(99)), "\"zz\" ^{ 99 \"#fmt\" ^}"),
+        ("int-fmt2^64", fmt_tagged(Cell::Int(255), Cell::Int(1 << 64)), "255 ^{ 18446744073709551616 \"#fmt\" ^}"),
+        ("int-fmt65536", fmt_tagged(Cell::Int(255), Cell::Int(65536)), "255 ^{ 65536 \"#fmt\" ^}"),
+        ("int-fmt-usize-max", fmt_tagged(Cell::Int(255), Cell::Int(usize::MAX as i128)), "255 ^{ 18446744073709551615 \"#fmt\" ^}"),
+        ("int-fmt0x7ff", fmt_tagged(Cell::Int(-255), Cell::Int(0x7ff)), "-255 ^{ 2047 \"#fmt\" ^}"),
+        ("int-fmt-neg", fmt_tagged(Cell::Int(5), Cell::Int(-1)), "5 ^{ -1 \"#fmt\" ^}"),
+        ("int-fmt-str", fmt_tagged(Cell::Int(5), Cell::from("x")), "5 ^{ \"x\" \"#fmt\" ^}"),
+        ("str-fmt0", fmt_tagged(Cell::from("10"), Cell::Int(0)), "\"10\" ^{ 0 \"#fmt\" ^}"),
+        ("str-fmt1", fmt_tagged(Cell::from("10"), Cell::Int(1)), "\"10\" ^{ 1 \"#fmt\" ^}"),
+        ("str-fmt37", fmt_tagged(Cell::from("10"), Cell::Int(37)), "\"10\" ^{ 37 \"#fmt\" ^}"),
+        ("vec-k", Cell::Vector(ints(&[1, 2])).insert_tag(Cell::from("k"), Cell::Int(1)), "[ 1 2 ] ^{ 1 \"k\" ^}"),
+        ("vec-fmt-tags", fmt_tagged(Cell::Vector(ints(&[10, 11])), Cell::Int(0x310)), "[ 10 11 ] ^{ 784 \"#fmt\" ^}"),
+        ("nil-t", Cell::Nil.insert_tag(Cell::from("t"), Cell::Flag(true)), "nil ^{ true \"t\" ^}"),
+        ("flag-t", Cell::Flag(true).insert_tag(Cell::Int(1), Cell::Nil), "true ^{ nil 1 ^}"),
+        ("str-assertmsg", Cell::from("s").insert_tag(Cell::from("assert.msg"), Cell::from(long_mb.clone())), "\"s\" ^{ \"éé…\" \"assert.msg\" ^}"),
+        ("int-assertmsg-int", Cell::Int(1).insert_tag(Cell::from("assert.msg"), Cell::Int(7)), "1 ^{ 7 \"assert.msg\" ^}"),
+        ("bitstr-offset", Cell::Bitstr(Xbitstr::from(vec![1u8, 2])).insert_tag(Cell::from("offset"), Cell::Int(usize::MAX as i128)), "|0102| ^{ 18446744073709551615 \"offset\" ^}"),
+        ("bitstr-offset-str", Cell::Bitstr(Xbitstr::from(vec![1u8, 2])).insert_tag(Cell::from("offset"), Cell::from("x")), "|0102| ^{ \"x\" \"offset\" ^}"),
+        ("real-len", Cell::Real(1.0).insert_tag(Cell::from("len"), Cell::Int(-5)), "1.0 ^{ -5 \"len\" ^}"),
+        ("map-mixed-tagkeys", Cell::Int(1).insert_tag(Cell::Int(1), Cell::Int(1)).insert_tag(Cell::from("a"), Cell::Int(2)).insert_tag(Cell::Nil, Cell::Int(3)), "1 ^{ 1 1 2 \"a\" 3 nil ^}"),
+    ];
+    for (n, c, s) in tg {
+        add("tagged", n, c, s);
+    }
+    add("fun", "interp-max", Cell::Fun(Xfn::Interp(usize::MAX)), "(Cell::Fun(Interp(usize::MAX)) via push_data)");
+    add("fun", "interp-0", Cell::Fun(Xfn::Interp(0)), "(Cell::Fun(Interp(0)) via push_data)");
+    add("any", "u8", Cell::from_any(5u8), "(Cell::AnyRc(5u8) via push_data)");
+    v
+}
+
+// ------------------------------------------------------------------------------------------------
+// child side: run cases in this process, one line of progress log per event
+// ------------------------------------------------------------------------------------------------
+thread_local! {
+    static LAST_PANIC: std::cell::RefCell<String> = std::cell::RefCell::new(String::new());
+    static STAGE: std::cell::RefCell<String> = std::cell::RefCell::new(String::new());
+    static RO_PANICS: std::cell::RefCell<Vec<(String, String)>> = std::cell::RefCell::new(Vec::new());
+}
+
+fn stage(s: &str) {
+    if std::env::var("C08_TRACE").is_ok() {
+        eprintln!("[{:?}] stage {}", std::time::SystemTime::now().duration_since(std::time::UNIX_EPOCH).map(|d| d.as_millis() % 1_000_000).unwrap_or(0), s);
+    }
+    STAGE.with(|x| {
+        let mut x = x.borrow_mut();
+        x.clear();
+        x.push_str(s);
+    });
+}
+
+fn fresh(prelude: u8, guard_alloc: bool) -> Xstate {
+    let mut xs = Xstate::boot().unwrap();
+    xeh::d2_plugin::load(&mut xs).unwrap();
+    // the outside world is off limits: these two words are shadowed even for accidental spellings
+    xs.eval(": write-all drop drop ; : exec-piped drop drop ;").unwrap();
+    xs.intercept_stdout(true);
+    if guard_alloc {
+        // texts compute their arguments, so the property's precondition "requested allocation sizes are
+        // modest" is enforced where the request is made: the four allocating words clamp an integer
+        // size argument to 10^6 (2000 per side for the canvas) and otherwise call the real word
+        xs.eval(
+            ": c08-rb random-bits ; : random-bits dup int? if dup 1000000 > if drop 1000000 then then c08-rb ;
+             : c08-i! int! ; : int! dup int? if dup 1000000 > if drop 1000000 then then c08-i! ;
+             : c08-u! uint! ; : uint! dup int? if dup 1000000 > if drop 1000000 then then c08-u! ;
+             : c08-d2r d2-resize ; : d2-resize depth 1 > if over int? over int? and if dup 2000 > if drop 2000 then swap dup 2000 > if drop 2000 then swap then then c08-d2r ;",
+        )
+        .unwrap();
+    }
+    if prelude == 1 {
+        xs.set_binary_input(bits_from((0..64).map(|i| (i * 37 + 11) as u8).collect(), 3, 411)).unwrap();
+        xs.intercept_output(true).unwrap();
+        xs.eval("3 2 d2-resize [ 1 2 3 ] d2-palette! 1 d2-color! big").unwrap();
+    }
+    xs.set_insn_limit(Some(INSN_LIMIT)).unwrap();
+    xs.set_stack_limit(Some(STACK_LIMIT)).unwrap();
+    xs.set_heap_limit(Some(HEAP_LIMIT)).unwrap();
+    xs
+}
+
+fn err_class(e: &Xerr) -> String {
+    let d = format!("{:?}", e);
+    let name: String = d.chars().take_while(|c| c.is_ascii_alphanumeric()).collect();
+    format!("err:{}", name)
+}
+
+fn note(first: &mut Option<String>, r: Xresult) {
+    if let Err(e) = r {
+        if first.is_none() {
+            *first = Some(err_class(&e));
+        }
+    }
+}
+
+/// a read-only (`&self`) API call: a panic in it is recorded and the case goes on, so that one
+/// formatting defect does not hide the others
+fn ro<T>(st: &str, f: impl FnOnce() -> T) -> Option<T> {
+    stage(st);
+    match std::panic::catch_unwind(std::panic::AssertUnwindSafe(f)) {
+        Ok(v) => Some(v),
+        Err(_) => {
+            let msg = LAST_PANIC.with(|p| p.borrow().clone());
+            RO_PANICS.with(|v| {
+                let mut v = v.borrow_mut();
+                if !v.iter().any(|(s, m)| s == st && *m == msg) {
+                    v.push((st.to_string(), msg));
+                }
+            });
+            None
+        }
+    }
+}
+
+fn observe(xs: &mut Xstate, deep: bool) {
+    ro("pretty_error", || xs.pretty_error());
+    ro("last_err_location", || xs.last_err_location().map(|l| format!("{:?}", l)));
+    ro("last_error", || xs.last_error().map(|e| format!("{} {:?}", e, e)));
+    ro("location_from_current_ip", || xs.location_from_current_ip().map(|l| format!("{:?}", l)));
+    let n = if deep { 20 } else { 3 };
+    for i in 0..n {
+        if let Some(c) = xs.get_data(i) {
+            let c = c.clone();
+            ro("format_cell", || xs.format_cell(&c));
+            ro("format_cell_safe", || xs.format_cell_safe(&c));
+        } else {
+            break;
+        }
+    }
+    stage("read_stdout");
+    let _ = xs.read_stdout();
+}
+
+fn fmt_ops(xs: &Xstate) {
+    let n = xs.bytecode().len();
+    for (ip, op) in xs.bytecode().iter().enumerate() {
+        ro("fmt_opcode", || xs.fmt_opcode(ip, op));
+        if ip + 40 > n || ip < 40 {
+            // also with other addresses inside 0..=len (fmt_opcode's contract: ip is an address of the code;
+            // addresses beyond the code are not probed)
+            ro("fmt_opcode(ip=0)", || xs.fmt_opcode(0, op));
+            ro("fmt_opcode(ip=len)", || xs.fmt_opcode(n, op));
+        }
+    }
+}
+
+fn run_word_case(f: &[&str], vals: &BTreeMap<String, Cell>) -> String {
+    // W rec prelude wrap word args...
+    let rec = f[1] == "1";
+    let prelude: u8 = f[2].parse().unwrap_or(0);
+    let wrap = f[3];
+    let word = unesc(f[4]);
+    let mut xs = fresh(prelude, false);
+    xs.set_recording_enabled(rec);
+    let mut first = None;
+    stage("push_data");
+    for a in &f[5..] {
+        if let Some(c) = vals.get(*a) {
+            note(&mut first, xs.push_data(c.clone()));
+        }
+    }
+    let src = match wrap {
+        "1" => format!("2 0 do {} loop", word),
+        "2" => format!(": t-wrap {} ; t-wrap", word),
+        _ => word.clone(),
+    };
+    stage("eval");
+    let r = xs.eval(&src);
+    let cls = match &r {
+        Ok(()) => "ok".to_string(),
+        Err(e) => err_class(e),
+    };
+    observe(&mut xs, false);
+    if rec {
+        stage("rnext");
+        for _ in 0..6 {
+            let _ = xs.rnext();
+        }
+        stage("next");
+        for _ in 0..6 {
+            let _ = xs.next();
+        }
+        observe(&mut xs, false);
+    }
+    stage("clone+drop");
+    let ys = xs.clone();
+    drop(xs);
+    drop(ys);
+    cls
+}
+
+fn parse_bits(s: &str) -> Xbitstr {
+    // start:len:hex
+    let p: Vec<&str> = s.splitn(3, ':').collect();
+    let start: usize = p.get(0).and_then(|x| x.parse().ok()).unwrap_or(0);
+    let len: usize = p.get(1).and_then(|x| x.parse().ok()).unwrap_or(0);
+    let hex = p.get(2).copied().unwrap_or("");
+    let mut bytes = Vec::new();
+    let hb = hex.as_bytes();
+    let mut i = 0;
+    while i + 1 < hb.len() {
+        bytes.push(u8::from_str_radix(&hex[i..i + 2], 16).unwrap_or(0));
+        i += 2;
+    }
+    let total = bytes.len() * 8;
+    let start = start.min(total);
+    let len = len.min(total - start);
+    bits_from(bytes, start, len)
+}
+
+fn run_text_case(f: &[&str], vals: &BTreeMap<String, Cell>) -> String {
+    // T prelude step...
+    let prelude: u8 = f[1].parse().unwrap_or(0);
+    let mut xs = fresh(prelude, true);
+    let mut first = None;
+    for st in &f[2..] {
+        let (op, arg) = match st.find('=') {
+            Some(i) => (&st[..i], unesc(&st[i + 1..])),
+            None => (*st, String::new()),
+        };
+        stage(op);
+        match op {
+            "rec+" => xs.set_recording_enabled(true),
+            "rec-" => xs.set_recording_enabled(false),
+            "insn" => note(&mut first, xs.set_insn_limit(arg.parse().ok())),
+            "stack" => note(&mut first, xs.set_stack_limit(arg.parse().ok())),
+            "heap" => note(&mut first, xs.set_heap_limit(arg.parse().ok())),
+            "mkfile" => {
+                // a harmless file in the child's scratch working directory (relative name only)
+                if let Some((name, content)) = arg.split_once(':') {
+                    if !name.contains('/') && !name.contains("..") {
+                        let _ = std::fs::write(name, content);
+                    }
+                }
+            }
+            "evalfile" => note(&mut first, xs.eval_file(Xstr::from(arg.as_str()))),
+            "compilefile" => note(&mut first, xs.compile_file(Xstr::from(arg.as_str()))),
+            "eval" => note(&mut first, xs.eval(&arg)),
+            "compile" => note(&mut first, xs.compile(&arg)),
+            "run" => note(&mut first, xs.run()),
+            "next" => {
+                for _ in 0..arg.parse::<usize>().unwrap_or(1) {
+                    let r = xs.next();
+                    let stop = r.is_err();
+                    note(&mut first, r);
+                    if stop || !xs.is_running() {
+                        break;
+                    }
+                }
+            }
+            "rnext" => {
+                for _ in 0..arg.parse::<usize>().unwrap_or(1) {
+                    note(&mut first, xs.rnext());
+                }
+            }
+            "perr" => observe(&mut xs, false),
+            "fmt" => {
+                observe(&mut xs, true);
+                stage("var_list");
+                let vars: Vec<Cell> = xs.var_list().into_iter().rev().take(12).map(|(_, c)| c.clone()).collect();
+                for c in vars {
+                    ro("format_cell", || xs.format_cell(&c));
+                    ro("format_cell_safe", || xs.format_cell_safe(&c));
+                }
+                let _ = xs.word_list().len();
+            }
+            "ops" => fmt_ops(&xs),
+            "bin" => note(&mut first, xs.set_binary_input(parse_bits(&arg))),
+            "icept+" => note(&mut first, xs.intercept_output(true)),
+            "icept-" => note(&mut first, xs.intercept_output(false)),
+            "clone" => {
+                let ys = xs.clone();
+                drop(std::mem::replace(&mut xs, ys));
+            }
+            "abort" => xs.abort_run(),
+            "pop" => {
+                let r = xs.pop_data();
+                if let Ok(c) = &r {
+                    ro("format_cell_safe", || xs.format_cell_safe(c));
+                }
+                note(&mut first, r.map(|_| ()));
+            }
+            "push" => {
+                if let Some(c) = vals.get(arg.as_str()) {
+                    note(&mut first, xs.push_data(c.clone()));
+                }
+            }
+            _ => (),
+        }
+    }
+    stage("final-observe");
+    observe(&mut xs, true);
+    stage("drop");
+    drop(xs);
+    first.unwrap_or_else(|| "ok".to_string())
+}
+
+fn child_main(batch: &str) {
+    std::panic::set_hook(Box::new(|info| {
+        let msg = if let Some(s) = info.payload().downcast_ref::<&str>() {
+            s.to_string()
+        } else if let Some(s) = info.payload().downcast_ref::<String>() {
+            s.clone()
+        } else {
+            "?".to_string()
+        };
+        let loc = info.location().map(|l| format!("{}:{}", l.file(), l.line())).unwrap_or_default();
+        LAST_PANIC.with(|p| *p.borrow_mut() = format!("{} @ {}", msg, loc));
+    }));
+    let text = std::fs::read_to_string(batch).expect("batch file");
+    let mut log = std::fs::File::create(format!("{}.log", batch)).expect("log file");
+    let vals: BTreeMap<String, Cell> = values().into_iter().map(|v| (v.name, v.cell)).collect();
+    for (i, line) in text.lines().enumerate() {
+        let f: Vec<&str> = line.split('\t').collect();
+        let _ = log.write_all(format!("S {}\n", i).as_bytes());
+        stage("setup");
+        RO_PANICS.with(|v| v.borrow_mut().clear());
+        let t0 = std::time::Instant::now();
+        let r = std::panic::catch_unwind(std::panic::AssertUnwindSafe(|| match f[0] {
+            "W" => run_word_case(&f, &vals),
+            "T" => run_text_case(&f, &vals),
+            _ => "ok".to_string(),
+        }));
+        let mut res = match r {
+            Ok(s) => s,
+            Err(_) => {
+                let st = STAGE.with(|s| s.borrow().clone());
+                let msg = LAST_PANIC.with(|p| p.borrow().clone());
+                format!("panic\x01{}\x01{}", st, esc(&msg))
+            }
+        };
+        RO_PANICS.with(|v| {
+            for (st, msg) in v.borrow().iter() {
+                res.push_str(&format!("\x01{}\x01{}", st, esc(msg)));
+            }
+        });
+        let _ = log.write_all(format!("R {} {} {}\n", i, t0.elapsed().as_millis(), res).as_bytes());
+    }
+}
+
+// ------------------------------------------------------------------------------------------------
+// parent side: batches in child processes
+// ------------------------------------------------------------------------------------------------
+#[derive(Clone, Debug)]
+enum Res {
+    Done(String),
+    /// the child died while this case was in flight: (kind, detail)
+    Died(String, String),
+}
+
+struct ChildRun {
+    results: Vec<Option<String>>,
+    in_flight: Option<usize>,
+    died: Option<(String, String)>,
+}
+
+fn run_child(dir: &str, tag: &str, cases: &[String]) -> ChildRun {
+    let batch = format!("{}/{}.batch", dir, tag);
+    std::fs::write(&batch, cases.join("\n") + "\n").unwrap();
+    let exe = std::env::current_exe().unwrap();
+    let sub = format!("{}/{}.out", dir, tag);
+    let errp = format!("{}/{}.stderr", dir, tag);
+    let errf = std::fs::File::create(&errp).unwrap();
+    let cwd = format!("{}/cwd", dir);
+    let _ = std::fs::create_dir_all(&cwd);
+    let mut cmd = std::process::Command::new("sh");
+    cmd.arg("-c")
+        .arg("ulimit -v 3000000 2>/dev/null; ulimit -c 0 2>/dev/null; exec \"$0\" \"$@\"")
+        .arg(&exe)
+        .args(["emit", "C08", "0", "0", &sub, &format!("child:{}", batch)])
+        .current_dir(&cwd)
+        .env("RUST_BACKTRACE", "0")
+        .stdin(std::process::Stdio::null())
+        .stdout(std::process::Stdio::null())
+        .stderr(errf);
+    let mut child = cmd.spawn().expect("spawn child");
+    let t0 = std::time::Instant::now();
+    let budget = std::time::Duration::from_millis(60_000 + cases.len() as u64 * 30);
+    let mut hang = false;
+    let status = loop {
+        match child.try_wait() {
+            Ok(Some(st)) => break Some(st),
+            Ok(None) => {
+                if t0.elapsed() > budget {
+                    let _ = child.kill();
+                    let _ = child.wait();
+                    hang = true;
+                    break None;
+                }
+                std::thread::sleep(std::time::Duration::from_millis(5));
+            }
+            Err(_) => break None,
+        }
+    };
+    let log = std::fs::read_to_string(format!("{}.log", batch)).unwrap_or_default();
+    let mut results: Vec<Option<String>> = vec![None; cases.len()];
+    let mut started: Option<usize> = None;
+    for l in log.lines() {
+        if let Some(r) = l.strip_prefix("S ") {
+            started = r.parse().ok();
+        } else if let Some(r) = l.strip_prefix("R ") {
+            let mut p = r.splitn(3, ' ');
+            if let (Some(i), Some(ms), Some(res)) = (p.next().and_then(|x| x.parse::<usize>().ok()), p.next(), p.next()) {
+                if i < results.len() {
+                    results[i] = Some(format!("{} {}", ms, res));
+                    if started == Some(i) {
+                        started = None;
+                    }
+                }
+            }
+        }
+    }
+    let ok_exit = status.map(|s| s.success()).unwrap_or(false);
+    let mut died = None;
+    let mut in_flight = None;
+    if !ok_exit || results.iter().any(|r| r.is_none()) {
+        let stderr = std::fs::read_to_string(&errp).unwrap_or_default();
+        let tail: String = stderr.lines().rev().take(6).collect::<Vec<_>>().into_iter().rev().collect::<Vec<_>>().join(" | ");
+        let kind = if hang {
+            "hang".to_string()
+        } else if stderr.contains("overflowed its stack") {
+            "stack-overflow".to_string()
+        } else if stderr.contains("memory allocation of") {
+            "alloc-abort".to_string()
+        } else {
+            use std::os::unix::process::ExitStatusExt;
+            match status {
+                Some(s) => match s.signal() {
+                    Some(sig) => format!("signal-{}", sig),
+                    None => format!("exit-{}", s.code().unwrap_or(-1)),
+                },
+                None => "wait-failed".to_string(),
+            }
+        };
+        in_flight = started.or_else(|| results.iter().position(|r| r.is_none()));
+        died = Some((kind, tail));
+    }
+    if std::env::var("C08_KEEP").is_err() {
+        let _ = std::fs::remove_file(&batch);
+        let _ = std::fs::remove_file(format!("{}.log", batch));
+        let _ = std::fs::remove_file(&errp);
+        let _ = std::fs::remove_dir_all(&sub);
+    }
+    ChildRun { results, in_flight, died }
+}
+
+/// run one batch to completion: every case gets a result; a dying child is restarted after the culprit
+fn run_batch(dir: &str, tag: &str, cases: &[String]) -> Vec<Res> {
+    let mut out: Vec<Option<Res>> = vec![None; cases.len()];
+    let mut start = 0usize;
+    let mut round = 0;
+    while start < cases.len() {
+        round += 1;
+        let cr = run_child(dir, &format!("{}r{}", tag, round), &cases[start..]);
+        for (i, r) in cr.results.iter().enumerate() {
+            if let Some(r) = r {
+                out[start + i] = Some(Res::Done(r.clone()));
+            }
+        }
+        match (cr.died, cr.in_flight) {
+            (Some((kind, detail)), Some(k)) => {
+                let k = start + k;
+                // confirm alone
+                let alone = run_child(dir, &format!("{}r{}c", tag, round), &cases[k..k + 1]);
+                if let Some((kind2, detail2)) = alone.died {
+                    out[k] = Some(Res::Died(kind2, detail2));
+                } else {
+                    // not reproducible alone: bisect the start of the shortest batch suffix ending at k that still dies
+                    let (mut lo, mut hi) = (start, k); // dies from lo; survives from hi(=k alone)
+                    let mut step = 0;
+                    while hi - lo > 1 && step < 12 {
+                        step += 1;
+                        let mid = (lo + hi) / 2;
+                        let r = run_child(dir, &format!("{}r{}b{}", tag, round, step), &cases[mid..k + 1]);
+                        if r.died.is_some() {
+                            lo = mid;
+                        } else {
+                            hi = mid;
+                        }
+                    }
+                    out[k] = Some(Res::Died(format!("{} (only after {} preceding case(s) of the batch, first of them: {})", kind, k - lo, cases[lo]), detail));
+                }
+                start = k + 1;
+            }
+            (Some((kind, detail)), None) => {
+                // died without a case in flight (start-up or shutdown): charge the first unresolved one
+                let k = (start..cases.len()).find(|i| out[*i].is_none()).unwrap_or(cases.len() - 1);
+                out[k] = Some(Res::Died(kind, detail));
+                start = k + 1;
+            }
+            (None, _) => break,
+        }
+    }
+    out.into_iter().map(|r| r.unwrap_or(Res::Died("lost".into(), String::new()))).collect()
+}
+
+fn run_all(dir: &str, cases: &[String], batch_size: usize, workers: usize) -> Vec<Res> {
+    let batches: Vec<(usize, &[String])> = cases.chunks(batch_size).enumerate().collect();
+    let next = std::sync::atomic::AtomicUsize::new(0);
+    let results: std::sync::Mutex<Vec<Option<Vec<Res>>>> = std::sync::Mutex::new(vec![None; batches.len()]);
+    std::thread::scope(|sc| {
+        for w in 0..workers.max(1) {
+            let batches = &batches;
+            let next = &next;
+            let results = &results;
+            sc.spawn(move || loop {
+                let i = next.fetch_add(1, std::sync::atomic::Ordering::SeqCst);
+                if i >= batches.len() {
+                    break;
+                }
+                let r = run_batch(dir, &format!("w{}b{}", w, i), batches[i].1);
+                results.lock().unwrap()[i] = Some(r);
+            });
+        }
+    });
+    results.into_inner().unwrap().into_iter().flat_map(|r| r.unwrap()).collect()
+}
+
+// ------------------------------------------------------------------------------------------------
+// case plans
+// ------------------------------------------------------------------------------------------------
+/// is the (word, argument tuple) a request for an immodest allocation? (`n random-bits`, `v n int!`,
+/// `v n uint!`, `w h d2-resize`): the property excludes those
+fn alloc_excluded(word: &str, args: &[&Val]) -> bool {
+    let int_of = |v: &Val| if let Cell::Int(i) = v.cell.value() { Some(*i) } else { None };
+    let top = |k: usize| if args.len() > k { int_of(args[args.len() - 1 - k]) } else { None };
+    match word {
+        "random-bits" | "int!" | "uint!" => top(0).map(|n| n > ALLOC_MAX).unwrap_or(false),
+        "d2-resize" => {
+            let h = top(0).unwrap_or(1);
+            let w = top(1).unwrap_or(1);
+            h > ALLOC_MAX || w > ALLOC_MAX || (h > 0 && w > 0 && h.saturating_mul(w) > 4 * ALLOC_MAX)
+        }
+        _ => false,
+    }
+}
+
+#[derive(Default)]
+struct Plan {
+    lines: Vec<String>,
+    shown: Vec<String>,
+    /// for word×argument cases: (word index, argument value indices)
+    meta: Vec<Option<(usize, Vec<usize>)>>,
+}
+
+impl Plan {
+    fn push(&mut self, line: String, shown: String) {
+        self.lines.push(line);
+        self.shown.push(shown);
+        self.meta.push(None);
+    }
+    fn len(&self) -> usize {
+        self.lines.len()
+    }
+}
+
+fn show_word_case(word: &str, args: &[&Val], rec: bool, prelude: u8, wrap: u8) -> String {
+    let names: Vec<&str> = args.iter().map(|a| a.name.as_str()).collect();
+    let srcs: Vec<&str> = args.iter().map(|a| a.src.as_str()).collect();
+    let w = match wrap {
+        1 => format!("2 0 do {} loop", word),
+        2 => format!(": t-wrap {} ; t-wrap", word),
+        _ => word.to_string(),
+    };
+    format!(
+        "word×args: push_data[{}] then eval({:?}) recording={} state={} ~ source `{} {}`",
+        names.join(", "),
+        w,
+        if rec { "on" } else { "off" },
+        if prelude == 1 { "prepared(binary input, d2 3x2, big-endian, output intercepted)" } else { "fresh" },
+        srcs.join(" "),
+        w
+    )
+}
+
+/// plans one word×argument case (None when the property excludes it)
+fn emit_word(ctx: &mut Ctx, plan: &mut Plan, words: &[String], vals: &[Val], w: usize, args: &[usize], rec: bool, prelude: u8, wrap: u8) {
+    let word = words[w].as_str();
+    let argv: Vec<&Val> = args.iter().map(|i| &vals[*i]).collect();
+    if DESTRUCTIVE.contains(&word) {
+        ctx.tag("skipped:destructive");
+        return;
+    }
+    if alloc_excluded(word, &argv) {
+        ctx.tag("skipped:alloc");
+        return;
+    }
+    ctx.tag(&format!("arity:{}", args.len()));
+    for a in &argv {
+        ctx.tag(&format!("class:{}", a.class));
+    }
+    ctx.tag(if rec { "recording:on" } else { "recording:off" });
+    ctx.tag(if prelude == 1 { "state:prepared" } else { "state:fresh" });
+    let mut l = format!("W\t{}\t{}\t{}\t{}", rec as u8, prelude, wrap, esc(word));
+    for a in &argv {
+        l.push('\t');
+        l.push_str(&a.name);
+    }
+    plan.push(l, show_word_case(word, &argv, rec, prelude, wrap));
+    *plan.meta.last_mut().unwrap() = Some((w, args.to_vec()));
+}
+
+/// arity 0 and 1: every word × every value
+fn plan_arity01(ctx: &mut Ctx, words: &[String], vals: &[Val], plan: &mut Plan) {
+    let thorough = ctx.thorough;
+    for w in 0..words.len() {
+        for rec in [false, true] {
+            for prelude in [0u8, 1] {
+                emit_word(ctx, plan, words, vals, w, &[], rec, prelude, 0);
+            }
+        }
+        emit_word(ctx, plan, words, vals, w, &[], false, 1, 1);
+        emit_word(ctx, plan, words, vals, w, &[], true, 0, 2);
+        for i in 0..vals.len() {
+            let rec = (i % 2 == 0) ^ (words[w].len() % 2 == 0);
+            emit_word(ctx, plan, words, vals, w, &[i], rec, 1, 0);
+            if thorough {
+                emit_word(ctx, plan, words, vals, w, &[i], !rec, 0, 0);
+                emit_word(ctx, plan, words, vals, w, &[i], rec, 1, 1);
+            }
+        }
+    }
+}
+
+/// deeper cases for the argument tuples that made the word ask for more (`StackUnderflow`): the new
+/// argument goes underneath. `cap` bounds the cases per word (sampled when the candidates exceed it).
+fn plan_guided(ctx: &mut Ctx, words: &[String], vals: &[Val], hungry: &BTreeMap<usize, Vec<Vec<usize>>>, cap: usize, plan: &mut Plan) {
+    for (w, tuples) in hungry {
+        let total = tuples.len() * vals.len();
+        if total <= cap {
+            for t in tuples {
+                for x in 0..vals.len() {
+                    let mut a = vec![x];
+                    a.extend_from_slice(t);
+                    let rec = ctx.rng.bool();
+                    emit_word(ctx, plan, words, vals, *w, &a, rec, 1, 0);
+                }
+            }
+        } else {
+            for _ in 0..cap {
+                let t = &tuples[ctx.rng.below(tuples.len())];
+                let mut a = vec![ctx.rng.below(vals.len())];
+                a.extend_from_slice(t);
+                let rec = ctx.rng.bool();
+                let prelude = if ctx.rng.chance(85) { 1 } else { 0 };
+                let wrap = if ctx.rng.chance(5) { 1 + ctx.rng.below(2) as u8 } else { 0 };
+                emit_word(ctx, plan, words, vals, *w, &a, rec, prelude, wrap);
+            }
+        }
+    }
+}
+
+/// uniformly random arity 2 and 3 (class chosen first so small classes are not starved): does not depend
+/// on the guidance heuristic
+fn plan_random(ctx: &mut Ctx, words: &[String], vals: &[Val], n: usize, plan: &mut Plan) {
+    let mut classes: Vec<&'static str> = Vec::new();
+    for v in vals {
+        if !classes.contains(&v.class) {
+            classes.push(v.class);
+        }
+    }
+    let by_class: BTreeMap<&str, Vec<usize>> = classes.iter().map(|c| (*c, (0..vals.len()).filter(|i| vals[*i].class == *c).collect())).collect();
+    for _ in 0..n {
+        let w = ctx.rng.below(words.len());
+        let ar = if ctx.rng.chance(55) { 2 } else { 3 };
+        let mut args = Vec::new();
+        for _ in 0..ar {
+            let c = *ctx.rng.pick(&classes);
+            args.push(*ctx.rng.pick(&by_class[c]));
+        }
+        let rec = ctx.rng.bool();
+        let prelude = if ctx.rng.chance(60) { 1 } else { 0 };
+        let wrap = if ctx.rng.chance(8) { 1 + ctx.rng.below(2) as u8 } else { 0 };
+        emit_word(ctx, plan, words, vals, w, &args, rec, prelude, wrap);
+    }
+}
+
+/// thorough tier: the full arity-2 product over values for the words `ws`
+fn plan_full2(ctx: &mut Ctx, words: &[String], vals: &[Val], ws: std::ops::Range<usize>, plan: &mut Plan) {
+    for w in ws {
+        for a in 0..vals.len() {
+            for b in 0..vals.len() {
+                let rec = ctx.rng.bool();
+                let prelude = if ctx.rng.chance(75) { 1 } else { 0 };
+                emit_word(ctx, plan, words, vals, w, &[a, b], rec, prelude, 0);
+            }
+        }
+    }
+}
+
+/// thorough tier: the full arity-3 product over argument classes (a representative drawn per position)
+fn plan_full3_classes(ctx: &mut Ctx, words: &[String], vals: &[Val], ws: std::ops::Range<usize>, plan: &mut Plan) {
+    let mut classes: Vec<&'static str> = Vec::new();
+    for v in vals {
+        if !classes.contains(&v.class) {
+            classes.push(v.class);
+        }
+    }
+    let by_class: BTreeMap<&str, Vec<usize>> = classes.iter().map(|c| (*c, (0..vals.len()).filter(|i| vals[*i].class == *c).collect())).collect();
+    for w in ws {
+        for ca in &classes {
+            for cb in &classes {
+                for cc in &classes {
+                    let a = *ctx.rng.pick(&by_class[ca]);
+                    let b = *ctx.rng.pick(&by_class[cb]);
+                    let c = *ctx.rng.pick(&by_class[cc]);
+                    let rec = ctx.rng.bool();
+                    let prelude = if ctx.rng.chance(75) { 1 } else { 0 };
+                    emit_word(ctx, plan, words, vals, w, &[a, b, c], rec, prelude, 0);
+                }
+            }
+        }
+    }
+}
+
+// ------------------------------------------------------------------------------------------------
+// text generators
+// ------------------------------------------------------------------------------------------------
+const LITERALS: &[&str] = &[
+    "0", "1", "2", "3", "-1", "7", "8", "10", "64", "128", "255", "0xff", "0b101", "-0x10", "1_000", "65535", "65536", "1000000",
+    "9223372036854775807", "9223372036854775808", "-9223372036854775808", "18446744073709551615", "18446744073709551616",
+    "170141183460469231731687303715884105727", "-170141183460469231731687303715884105727", "170141183460469231731687303715884105728",
+    "0.0", "-0.0", "1.5", "-2.5", "1e300", "1.0e-320", "1.", "0x1.5", "1e", "--1", "+5", "1+", "0b2", "0x", "0b",
+    "\"\"", "\"a\"", "\"abc\"", "\"é\"", "\"日本語😀\"", "\"a b\"", "\"\\n\\t\\\\\\\"\"", "\"12\"", "\"ff\"", "\"1.5\"", "“q”", "\"#fmt\"", "\"offset\"", "\"len\"", "\"assert.msg\"",
+    "| |", "|ff|", "|x.x|", "|1234 5678|", "|f|", "|....x|", "|0102030405060708090a0b0c0d0e0f1011|",
+    "nil", "true", "false",
+];
+
+const GARBAGE: &[&str] = &["\"", "\"abc", "|", "|12", "|zz|", "\"\\q\"", "\"a\"b", "\\", "\\ comment\n", "\\( multi \\)", "\\( open", "\u{feff}", "\u{0}", "\r\n", "\t", "é", "“", "”", "“abc", "😀", "\u{202e}", "\u{ffff}", ")", "(", "#", "^", "&", "~", "\u{85}", "\u{a0}"];
+
+const STRUCT_WORDS: &[&str] = &[
+    "if", "else", "then", "case", "of", "endof", "endcase", "begin", "while", "until", "break", "repeat", "[", "]", "{", "}", "^{", "^}", ":", ";", "late", "immediate", "local", "var", "!", "#(", "#)",
+    "~)", "const", "do", "loop", "foreach", "defined", "let", "see", "enum", "endenum", "=", "&", "^", "include", "require", "<name>", "I", "J", "K",
+];
+
+const NAMES: &[&str] = &["a", "b", "x", "y", "f", "g", "t-wrap", "aa", "X", "input", "offset", "big?", "output", "output-length", "d2-context", "true", "false", "dup", "+", ":", "=", "[", "]", "é", "0x", "nil"];
+
+fn soup_word(r: &mut Rng, words: &[String]) -> String {
+    match r.below(100) {
+        0..=44 => {
+            let w = &words[r.below(words.len())];
+            w.clone()
+        }
+        45..=69 => r.pick(LITERALS).to_string(),
+        70..=86 => r.pick(STRUCT_WORDS).to_string(),
+        87..=94 => r.pick(NAMES).to_string(),
+        _ => r.pick(GARBAGE).to_string(),
+    }
+}
+
+fn gen_soup(r: &mut Rng, words: &[String]) -> String {
+    let long = r.chance(10);
+    let n = 1 + r.below(if long { 120 } else { 30 });
+    let mut s = String::new();
+    for i in 0..n {
+        if i > 0 {
+            s.push_str(*r.pick(&[" ", " ", " ", "\n", "  ", "\t"]));
+        }
+        s.push_str(&soup_word(r, words));
+    }
+    s
+}
+
+fn gen_value_src(r: &mut Rng, depth: usize) -> String {
+    match r.below(if depth > 2 { 6 } else { 10 }) {
+        0..=3 => r.pick(LITERALS).to_string(),
+        4 => r.pick(&["1", "2", "3", "\"k\"", "\"a\"", "nil"]).to_string(),
+        5 => format!("{} ^{{ {} {} ^}}", gen_value_src(r, depth + 1), gen_value_src(r, depth + 1), r.pick(&["\"#fmt\"", "\"k\"", "1", "\"len\"", "\"offset\"", "\"assert.msg\""])),
+        6 | 7 => {
+            let n = r.below(4);
+            let mut s = String::from("[ ");
+            for _ in 0..n {
+                s.push_str(&gen_value_src(r, depth + 1));
+                s.push(' ');
+            }
+            s.push(']');
+            s
+        }
+        _ => {
+            let n = r.below(3);
+            let mut s = String::from("{ ");
+            for _ in 0..n {
+                s.push_str(&gen_value_src(r, depth + 1));
+                s.push(' ');
+                s.push_str(&gen_value_src(r, depth + 2));
+                s.push(' ');
+            }
+            s.push('}');
+            s
+        }
+    }
+}
+
+/// a `let` pattern from the grammar (mostly valid), optionally with junk
+fn gen_let_pattern(r: &mut Rng, depth: usize) -> String {
+    let name = |r: &mut Rng| r.pick(&["a", "b", "c", "xs", "v", "t", "x1", "dup", "é", "I"]).to_string();
+    match r.below(if depth > 3 { 4 } else { 12 }) {
+        0 | 1 => name(r),
+        2 => r.pick(LITERALS).to_string(),
+        3 => r.pick(&["&", "]", "}", "^", "[", "{", "", "\\ c\n", "\\( c \\)", ";", ":"]).to_string(),
+        4..=6 => {
+            let n = r.below(4);
+            let mut s = String::from("[ ");
+            for _ in 0..n {
+                s.push_str(&gen_let_pattern(r, depth + 1));
+                s.push(' ');
+            }
+            if r.chance(35) {
+                s.push_str("& ");
+                s.push_str(&gen_let_pattern(r, depth + 1));
+                s.push(' ');
+                if r.chance(15) {
+                    s.push_str(&gen_let_pattern(r, depth + 1));
+                    s.push(' ');
+                }
+            }
+            if !r.chance(5) {
+                s.push(']');
+            }
+            s
+        }
+        7 | 8 => {
+            let n = r.below(3);
+            let mut s = String::from("{ ");
+            for _ in 0..n {
+                s.push_str(*r.pick(&["\"k\"", "1", "\"a\"", "nil", "0x10", "x", "|ff|", "1.5"]));
+                s.push(' ');
+                s.push_str(&gen_let_pattern(r, depth + 1));
+                s.push(' ');
+            }
+            if !r.chance(5) {
+                s.push('}');
+            }
+            s
+        }
+        9 | 10 => format!("^ {} {}", gen_let_pattern(r, depth + 1), gen_let_pattern(r, depth + 1)),
+        _ => format!("\\ comment\n {}", gen_let_pattern(r, depth + 1)),
+    }
+}
+
+fn gen_let(r: &mut Rng) -> String {
+    let v = gen_value_src(r, 0);
+    let p = gen_let_pattern(r, 0);
+    let tail = *r.pick(&["", " a", " a b", " depth", " xs length", " t"]);
+    match r.below(5) {
+        0 => format!(": f {} let {} {} ; f", v, p, tail),
+        1 => format!(": f let {} {} ; {} f", p, tail, v),
+        2 => format!("{} let {} let {}{}", v, p, gen_let_pattern(r, 0), tail),
+        _ => format!("{} let {}{}", v, p, tail),
+    }
+}
+
+fn gen_enum(r: &mut Rng) -> String {
+    let mut s = String::from("enum ");
+    s.push_str(*r.pick(&["E", "Test", "", "1", "[", ":"]));
+    s.push(' ');
+    for i in 0..r.below(6) {
+        match r.below(10) {
+            0..=3 => s.push_str(&format!(": F{} ", i)),
+            4..=6 => s.push_str(&format!("{} = G{} ", r.pick(LITERALS), i)),
+            7 => s.push_str(&format!("F0 {} + = H{} ", r.pick(LITERALS), i)),
+            8 => s.push_str(*r.pick(&[": ", "= ", "1 2 = B ", "1 : A ", "#) ", "#( ", "endenum ", "enum N ", "[ ", "if ", ": : ", "= = ", "1 var v ", "; "])),
+            _ => s.push_str(&format!("{} ", r.pick(LITERALS))),
+        }
+    }
+    if !r.chance(10) {
+        s.push_str("endenum ");
+    }
+    s.push_str(*r.pick(&["", "F0", "F1 G2 +", ": t F0 ; t", "endenum", "E"]));
+    s
+}
+
+fn gen_meta(r: &mut Rng, words: &[String]) -> String {
+    let body = |r: &mut Rng| {
+        let n = r.below(6);
+        (0..n).map(|_| if r.chance(60) { r.pick(LITERALS).to_string() } else { soup_word(r, words) }).collect::<Vec<_>>().join(" ")
+    };
+    match r.below(9) {
+        0 => format!("#( {} #)", body(r)),
+        1 => format!("#( {} const C #) C", body(r)),
+        2 => format!("#( {} ~) {}", body(r), body(r)),
+        3 => format!("#( \"{}\" ~)", body(r).replace('"', "")),
+        4 => format!(": f #( {} #) {} ; f", body(r), body(r)),
+        5 => format!("#( #( {} #) {} #) {}", body(r), body(r), body(r)),
+        6 => format!("{} #( {} ~) #)", body(r), body(r)),
+        7 => format!("#( [ \"1\" \"2\" [ \"+\" ] ] ~) {}", body(r)),
+        _ => format!("{} const K {} ~) {} #)", body(r), body(r), body(r)),
+    }
+}
+
+/// a mostly valid program: definitions, locals, control flow, loops, collections
+fn gen_program(r: &mut Rng, words: &[String], depth: usize) -> String {
+    let mut parts: Vec<String> = Vec::new();
+    let n = 1 + r.below(if depth == 0 { 8 } else { 4 });
+    for _ in 0..n {
+        let p = match r.below(if depth > 2 { 8 } else { 20 }) {
+            0..=3 => r.pick(LITERALS).to_string(),
+            4..=7 => words[r.below(words.len())].clone(),
+            8 => format!("{} if {} else {} then", r.pick(&["true", "false", "nil", "1", "dup"]), gen_program(r, words, depth + 1), gen_program(r, words, depth + 1)),
+            9 => format!("{} {} do {} loop", r.pick(&["3", "0", "-2", "10", "1000000", "9223372036854775807"]), r.pick(&["0", "1", "-5", "9223372036854775800"]), gen_program(r, words, depth + 1)),
+            10 => format!("begin {} {} until", gen_program(r, words, depth + 1), r.pick(&["true", "false", "nil", "depth 5 >"])),
+            11 => format!("begin {} while {} repeat", r.pick(&["true", "false", "depth 9 <"]), gen_program(r, words, depth + 1)),
+            12 => format!(": {} {} ; {}", r.pick(&["f", "g", "h", "dup", "+"]), gen_program(r, words, depth + 1), r.pick(&["f", "g", "h", ""])),
+            13 => format!("{} foreach {} loop", gen_value_src(r, 1), gen_program(r, words, depth + 1)),
+            14 => format!("{} case {} of {} endof {} of {} endof {} endcase", r.pick(LITERALS), r.pick(LITERALS), gen_program(r, words, depth + 1), r.pick(LITERALS), r.pick(&["break", "1", ""]), r.pick(&["drop", "", "0"])),
+            15 => format!("{} var {} {} ! {}", r.pick(LITERALS), r.pick(NAMES), r.pick(LITERALS), r.pick(NAMES)),
+            16 => format!(": f {} local x {} x ; {} f", r.pick(LITERALS), gen_program(r, words, depth + 1), r.pick(LITERALS)),
+            17 => gen_value_src(r, 0),
+            18 => format!("late {} : u {} ; {}", r.pick(NAMES), r.pick(NAMES), r.pick(&["u", ": a 1 ; u", "#( 3 const a #) u", "1 var a u"])),
+            _ => format!(": f {} immediate ; {} f {}", gen_program(r, words, depth + 1), r.pick(&["", ": g", "["]), r.pick(&["", ";", "]"])),
+        };
+        parts.push(p);
+    }
+    parts.join(" ")
+}
+
+/// programs over the binary-input words: reads of every kind, seeks, searches, dumps, nested inputs, output
+fn gen_bitprog(r: &mut Rng) -> String {
+    const SRC: &[&str] = &[
+        "|0102030405060708090a0b0c0d0e0f10| open-bitstr", "|ff| open-bitstr", "| | open-bitstr", "|x.x..x| open-bitstr", "\"héllo\\n\" >bitstr open-bitstr", "[ 0 255 [ 65 \"b\" ] ] >bitstr open-bitstr",
+        "1000 random-bits open-bitstr", "input open-bitstr", "3 bits open-bitstr", "close-bitstr", "close-bitstr close-bitstr", "|00 61 62 00 63| open-bitstr",
+    ];
+    const RD: &[&str] = &[
+        "u8", "i8", "u16", "u16le", "u16be", "i16", "u32", "i32be", "u64", "i64le", "f32", "f64", "f32be", "f64le", "8 bits", "3 bits", "0 bits", "1 bytes", "16 bytes", "7 uint", "7 int", "127 uint", "128 uint",
+        "128 int", "129 int", "0 int", "0 uint", "32 float", "64 float", "16 float", "0 float", "nulbytestr", "cstr", "remain", "remain bits", "offset", "input", "dump", "0 dump-at", "3 dump-at", "offset dump-at",
+        "1000 dump-at", "|ff| find", "|0a| find", "| | find", "|x| find", "|01| magic", "| | magic", "|x.| magic", "0 seek", "3 seek", "remain seek", "offset 1 + seek", "offset 8 + seek", "1000 seek", "-1 seek",
+        "big", "little", "big?", "drop", "dup", "emit", "dup emit", "output", "output-length", ".s", "print", "bitstr-len", "bitstr>hex", "bitstr>utf8", "bitstr-not", "dup bitstr-append", "dup bitstr-xor",
+        "swap bitstr-and", "over bitstr-or", ">bitstr", "8 uint!", "3 int!", "0 int!", "129 uint!", "64 float!", "32 float!", "u8!", "i16le!", "u32be!", "f64!", "f32le!", ">b", ">kb", ">mb",
+        "5 ! offset", "-1 ! offset", "\"x\" ! offset", "nil ! input", "| | ! input", "2 ! big?", "nil ! output", "|f| ! output", "\"x\" ! output", "nil ! output-length", "-5 ! output-length",
+        "18446744073709551615 ! offset", "18446744073709551615 ! output-length", "base64", "base32", "zero85", "base32hex", "base64>", "zero85>",
+    ];
+    let mut s = String::new();
+    s.push_str(*r.pick(SRC));
+    for _ in 0..1 + r.below(14) {
+        s.push(' ');
+        if r.chance(12) {
+            s.push_str(*r.pick(SRC));
+        } else if r.chance(8) {
+            s.push_str(*r.pick(LITERALS));
+        } else {
+            s.push_str(*r.pick(RD));
+        }
+    }
+    s
+}
+
+/// formatting programs: values with format flags through every printing / joining / parsing word
+fn gen_fmtprog(r: &mut Rng) -> String {
+    const FL: &[&str] = &[
+        "^hex", "^dec", "^oct", "^bin", "true fmt/prefix", "false fmt/prefix", "true fmt/tags", "false fmt/tags", "true fmt/upcase", "false fmt/upcase", "nil fmt/upcase", "1 fmt/tags",
+        "^{ 99 \"#fmt\" ^}", "^{ 65536 \"#fmt\" ^}", "^{ 18446744073709551615 \"#fmt\" ^}", "^{ 18446744073709551616 \"#fmt\" ^}", "^{ -1 \"#fmt\" ^}", "^{ \"x\" \"#fmt\" ^}", "^{ 2047 \"#fmt\" ^}",
+        "^{ 1024 \"#fmt\" ^}", "^{ 0 \"#fmt\" ^}", "^{ 1 \"#fmt\" ^}", "^{ 36 \"#fmt\" ^}", "^{ 37 \"#fmt\" ^}", "^{ 255 \"#fmt\" ^}", "^{ 256 \"#fmt\" ^}", "99 \"#fmt\" insert-tag", "nil \"#fmt\" insert-tag",
+        "\"#fmt\" remove-tag", "tags", "{ } with-tags", "dup tags with-tags", "\"#fmt\" get-tag",
+    ];
+    const USE: &[&str] = &[
+        "print", "println", ".s", "dup print", "1 collect concat", "1 collect \",\" join", "2 collect \"é\" join", "str>number", "dup error", "error", "dup dup assert-eq", "1 assert-eq", "assert", "[ swap ] concat",
+        "{ swap 1 } .s", "nil swap insert-tag print", "length", "see dup", "newline", "1 collect dup concat str>number", "\"12\" swap drop", "dup 1 collect swap 1 collect concat print",
+    ];
+    let mut s = gen_value_src(r, 0);
+    for _ in 0..1 + r.below(6) {
+        s.push(' ');
+        s.push_str(*r.pick(FL));
+    }
+    for _ in 0..1 + r.below(3) {
+        s.push(' ');
+        s.push_str(*r.pick(USE));
+        if r.chance(40) {
+            s.push(' ');
+            s.push_str(*r.pick(FL));
+        }
+    }
+    s
+}
+
+/// canvas programs (d2 plugin)
+fn gen_d2prog(r: &mut Rng) -> String {
+    const N: &[&str] = &["0", "1", "2", "3", "7", "100", "1000", "-1", "65536", "4294967295", "4294967296", "9223372036854775807", "18446744073709551615", "18446744073709551616", "nil", "\"a\"", "1.5"];
+    const W: &[&str] = &[
+        "d2-resize", "d2-clear", "d2-width", "d2-height", "d2-color!", "d2-data!", "d2-data", "d2-capture-rgba", "d2-palette!", "[ 1 2 3 ] d2-palette!", "[ ] d2-palette!", "[ -1 ] d2-palette!", "[ \"a\" ] d2-palette!",
+        "[ 18446744073709551615 ] d2-palette!", "d2-context", "nil ! d2-context", "1 ! d2-context", "d2-context ! d2-context", "d2-context print", "d2-context dup assert-eq", "length", "drop", "dup", "swap", ".s",
+        "d2-width d2-height *", "d2-capture-rgba open-bitstr u32",
+    ];
+    let mut s = String::new();
+    for i in 0..2 + r.below(14) {
+        if i > 0 {
+            s.push(' ');
+        }
+        if r.chance(55) {
+            s.push_str(*r.pick(N));
+        } else {
+            s.push_str(*r.pick(W));
+        }
+    }
+    s
+}
+
+fn mutate(r: &mut Rng, s: &str, words: &[String]) -> String {
+    let mut toks: Vec<String> = s.split(' ').map(|x| x.to_string()).collect();
+    for _ in 0..1 + r.below(3) {
+        if toks.is_empty() {
+            break;
+        }
+        let i = r.below(toks.len());
+        match r.below(6) {
+            0 => {
+                toks.remove(i);
+            }
+            1 => {
+                let t = toks[i].clone();
+                toks.insert(i, t);
+            }
+            2 => {
+                let j = r.below(toks.len());
+                toks.swap(i, j);
+            }
+            3 => toks.truncate(i),
+            4 => toks.insert(i, soup_word(r, words)),
+            _ => toks[i] = r.pick(GARBAGE).to_string(),
+        }
+    }
+    toks.join(" ")
+}
+
+fn gen_utf8(r: &mut Rng) -> String {
+    let n = r.below(60);
+    let mut s = String::new();
+    for _ in 0..n {
+        let c = match r.below(12) {
+            0..=3 => (0x20 + r.below(0x5f) as u32) as u8 as char,
+            4 => *r.pick(&['"', '|', '\\', '“', '”', '(', ')', '.', 'x', '_', '-', '+']),
+            5 => *r.pick(&[' ', '\n', '\r', '\t', '\u{b}', '\u{c}']),
+            6 => char::from_u32(r.below(0x20) as u32).unwrap_or(' '),
+            7 => char::from_u32(0x80 + r.below(0x780) as u32).unwrap_or('é'),
+            8 => char::from_u32(0x800 + r.below(0xf000) as u32).unwrap_or('語'),
+            9 => char::from_u32(0x10000 + r.below(0xffff) as u32).unwrap_or('😀'),
+            10 => *r.pick(&['0', '1', '9', 'a', 'f', 'e', 'b']),
+            _ => *r.pick(&['\u{feff}', '\u{2028}', '\u{85}', '\u{a0}', '\u{10ffff}', '\u{d7ff}', '\u{e000}']),
+        };
+        s.push(c);
+    }
+    s
+}
+
+/// one very long token (number, word, string, bit-string, comment), terminated or not
+fn gen_long_token(r: &mut Rng, big: bool) -> String {
+    let n = if big { *r.pick(&[70_000usize, 300_000]) } else { *r.pick(&[100usize, 1000, 5000]) };
+    let unit = *r.pick(&["9", "f", "0", "a", "é", "x.", "1_", "\\\\", "\\n", "😀", ".", "-", "ab "]);
+    let body: String = unit.repeat(n / unit.len().max(1) + 1);
+    match r.below(10) {
+        0 => body,
+        1 => format!("0x{}", body),
+        2 => format!("0b{}", body),
+        3 => format!("\"{}\"", body),
+        4 => format!("\"{}", body),
+        5 => format!("|{}|", body),
+        6 => format!("|{}", body),
+        7 => format!("\\( {} \\)", body),
+        8 => format!(": {} 1 ; {}", body.replace(' ', ""), body.replace(' ', "")),
+        _ => format!("\"{}\" dup error", body),
+    }
+}
+
+fn gen_nesting(r: &mut Rng, big: bool) -> (String, &'static str) {
+    let depth = if big { *r.pick(&[2_000usize, 10_000, 100_000]) } else { *r.pick(&[5usize, 50, 300, 1200]) };
+    let close = r.chance(60);
+    let (open, cl, tag): (&str, &str, &'static str) = match r.below(14) {
+        0 => ("[ ", "] ", "nest:["),
+        1 => ("{ ", "} ", "nest:{"),
+        2 => ("#( ", "#) ", "nest:#("),
+        3 => (": f ", "; ", "nest::"),
+        4 => ("1 if ", "then ", "nest:if"),
+        5 => ("begin ", "1 until ", "nest:begin"),
+        6 => ("1 0 do ", "loop ", "nest:do"),
+        7 => ("1 ^{ ", "^} ", "nest:^{"),
+        8 => ("1 case 1 of ", "endof endcase ", "nest:case"),
+        9 => ("[ ] let [ ", "] ", "nest:let["),
+        10 => ("1 let ^ a ", "", "nest:let^"),
+        11 => ("{ } let { 1 ", "} ", "nest:let{"),
+        12 => ("\\( ", "\\) ", "nest:comment"),
+        _ => ("enum E ", "endenum ", "nest:enum"),
+    };
+    // definitions and enum fields grow the dictionary: every later lookup scans it (quadratic time, no crash)
+    let depth = if matches!(tag, "nest::" | "nest:enum" | "nest:if" | "nest:case") { depth.min(3000) } else { depth };
+    let mut s = String::with_capacity(depth * (open.len() + cl.len()) + 16);
+    if tag == "nest:let[" || tag == "nest:let{" {
+        // one `let`, the pattern itself nested
+        s.push_str(if tag == "nest:let[" { "[ ] let " } else { "{ } let " });
+        for _ in 0..depth {
+            s.push_str(if tag == "nest:let[" { "[ " } else { "{ 1 " });
+        }
+        if close {
+            for _ in 0..depth {
+                s.push_str(cl);
+            }
+        }
+        return (s, tag);
+    }
+    if tag == "nest:let^" {
+        s.push_str("1 let ");
+        for _ in 0..depth {
+            s.push_str("^ a ");
+        }
+        s.push('b');
+        return (s, tag);
+    }
+    for _ in 0..depth {
+        s.push_str(open);
+    }
+    if close {
+        for _ in 0..depth {
+            s.push_str(cl);
+        }
+    }
+    (s, tag)
+}
+
+fn gen_bin_arg(r: &mut Rng) -> String {
+    let nbytes = *r.pick(&[0usize, 1, 2, 3, 8, 16, 17, 64, 300]);
+    let bytes: Vec<u8> = (0..nbytes).map(|_| r.next_u64() as u8).collect();
+    let total = nbytes * 8;
+    let start = if total == 0 { 0 } else { r.below(total.min(17)) };
+    let len = if total - start == 0 { 0 } else { (total - start) - r.below((total - start).min(9)) };
+    format!("{}:{}:{}", start, len, canon::hex(&bytes))
+}
+
+fn text_case(r: &mut Rng, text: &str, long_limits: bool) -> (String, String) {
+    // choose how the text is driven
+    let mut steps: Vec<String> = Vec::new();
+    if long_limits {
+        steps.push("insn=400000".into());
+    }
+    let rec = r.chance(45);
+    if rec {
+        steps.push("rec+".into());
+    }
+    if r.chance(25) {
+        steps.push(format!("bin={}", gen_bin_arg(r)));
+    }
+    if r.chance(15) {
+        steps.push("icept+".into());
+    }
+    if r.chance(6) {
+        steps.push(format!("{}={}", r.pick(&["insn", "stack", "heap"]), r.pick(&["0", "1", "2", "7", "50"])));
+    }
+    if r.chance(4) {
+        steps.push(format!("{}={}", r.pick(&["evalfile", "compilefile"]), r.pick(&["no-such-file.xeh", ".", "", "/", "é/\u{0}x", "../cwd"])));
+    }
+    match r.below(10) {
+        0..=3 => {
+            steps.push(format!("eval={}", esc(text)));
+        }
+        4 | 5 => {
+            steps.push(format!("compile={}", esc(text)));
+            steps.push("ops".into());
+            steps.push("run".into());
+        }
+        6 | 7 => {
+            steps.push(format!("compile={}", esc(text)));
+            for _ in 0..1 + r.below(4) {
+                steps.push(format!("next={}", 1 + r.below(60)));
+                if r.chance(50) {
+                    steps.push("perr".into());
+                }
+                if r.chance(60) {
+                    steps.push(format!("rnext={}", 1 + r.below(40)));
+                }
+                if r.chance(20) {
+                    steps.push("fmt".into());
+                }
+                if r.chance(10) {
+                    steps.push("clone".into());
+                }
+            }
+            steps.push("run".into());
+        }
+        8 => {
+            // split the text over two sources
+            let toks: Vec<&str> = text.split(' ').collect();
+            let k = r.below(toks.len() + 1);
+            steps.push(format!("eval={}", esc(&toks[..k].join(" "))));
+            steps.push("perr".into());
+            steps.push(format!("eval={}", esc(&toks[k..].join(" "))));
+        }
+        _ => {
+            steps.push(format!("eval={}", esc(text)));
+            steps.push("rnext=30".into());
+            steps.push("next=30".into());
+            steps.push("abort".into());
+            steps.push(format!("compile={}", esc(text)));
+            steps.push("rnext=10".into());
+            steps.push("run".into());
+        }
+    }
+    steps.push("perr".into());
+    if r.chance(50) {
+        steps.push("fmt".into());
+    }
+    if r.chance(30) {
+        steps.push("ops".into());
+    }
+    if rec && r.chance(50) {
+        steps.push(format!("rnext={}", 1 + r.below(100)));
+        steps.push(format!("next={}", 1 + r.below(100)));
+        steps.push("perr".into());
+    }
+    let prelude = if r.chance(30) { 1 } else { 0 };
+    let line = format!("T\t{}\t{}", prelude, steps.join("\t"));
+    let shown = format!("text: state={} steps: {}", if prelude == 1 { "prepared" } else { "fresh" }, steps.iter().map(|s| unesc_shown(s)).collect::<Vec<_>>().join(" ; "));
+    (line, shown)
+}
+
+fn unesc_shown(s: &str) -> String {
+    // keep the escaped form (single line) but cut very long texts in the middle for the report
+    if s.chars().count() > 600 {
+        let head: String = s.chars().take(300).collect();
+        let tail: String = s.chars().rev().take(120).collect::<Vec<_>>().into_iter().rev().collect();
+        format!("{} …[{} chars]… {}", head, s.chars().count(), tail)
+    } else {
+        s.to_string()
+    }
+}
+
+fn plan_fixed_texts(plan: &mut Plan, ctx: &mut Ctx) {
+    // deterministic texts: the two known findings plus regression witnesses of the repaired defects
+    let mut fixed: Vec<(String, Vec<String>)> = Vec::new();
+    let t = |s: &str| format!("eval={}", esc(s));
+    let mixed_sort = "[ 0.5 2 1 3.5 \"f\" \"a\" \"d\" \"d\" 0.5 2 \"a\" 1.5 6 4 1.5 \"b\" 1.5 \"a\" 3.5 8 1 4 4.5 4.5 7 2.5 2.5 8 \"f\" 5 \"e\" 0 8 \"c\" ] sort".to_string();
+    fixed.push(("fixed:incomparable-sort".into(), vec![t(&mixed_sort)]));
+    fixed.push(("fixed:deep-nesting-drop".into(), vec!["insn=400000".into(), t("[ ] 50000 0 do 1 collect loop var deep")]));
+    fixed.push(("fixed:deep-nesting-print".into(), vec!["insn=400000".into(), t("[ ] 50000 0 do 1 collect loop"), "fmt".into()]));
+    for (name, src) in [
+        ("fixed:rem0", "1 0 rem"),
+        ("fixed:divmin", "-170141183460469231731687303715884105727 1 - -1 /"),
+        ("fixed:absmin", "-170141183460469231731687303715884105727 1 - abs"),
+        ("fixed:int0", "|ff| open-bitstr 0 int"),
+        ("fixed:nth-min", "[ 1 ] -9223372036854775808 nth"),
+        ("fixed:slice-min", "[ 1 ] -9223372036854775808 0 slice"),
+        ("fixed:let-comment", ": f let \\ c\n x ; "),
+        ("fixed:radix99", "\"zz\" ^{ 99 \"#fmt\" ^} str>number"),
+        ("fixed:bytes-huge", "|ff| open-bitstr 2305843009213693952 bytes"),
+        ("fixed:seek-huge", "18446744073709551616 seek"),
+    ] {
+        fixed.push((name.into(), vec![t(src), "perr".into(), "fmt".into()]));
+    }
+    let long_line: String = format!("{}foo", "1 ".repeat(33_000));
+    for (name, steps) in [
+        ("fixed:fmt-width", vec![t("1 ^{ 65536 \"#fmt\" ^} dup print"), "fmt".to_string()]),
+        ("fixed:fmt-width-max", vec![t("[ 1 ] ^{ 18446744073709551615 \"#fmt\" ^} dup println [ swap ] \",\" join"), "fmt".to_string()]),
+        ("fixed:caret-col", vec![t(&long_line), "perr".to_string()]),
+        ("fixed:enum-max", vec![t("enum E 170141183460469231731687303715884105727 = A : B endenum"), "perr".to_string()]),
+        ("fixed:d2-data-mul", vec![t("3 2 d2-resize 0 18446744073709551615 d2-data"), "perr".to_string()]),
+        ("fixed:d2-data-add", vec![t("1 1 d2-resize 18446744073709551615 1 d2-data"), "perr".to_string()]),
+        ("fixed:d2-data!-mul", vec![t("3 2 d2-resize 1 18446744073709551615 d2-data!"), "perr".to_string()]),
+        ("fixed:emit-len", vec![t("18446744073709551615 ! output-length |ff| emit output-length"), "fmt".to_string()]),
+        ("fixed:include-cycle", vec![format!("mkfile={}", esc("c08-self.xeh:include \"c08-self.xeh\"\n")), t("include \"c08-self.xeh\""), "perr".to_string(), t("require \"c08-self.xeh\" 1"), "perr".to_string()]),
+        ("fixed:include-cycle-2", vec![format!("mkfile={}", esc("c08-a.xeh:1 include \"c08-b.xeh\" 2\n")), format!("mkfile={}", esc("c08-b.xeh:3 include \"c08-a.xeh\" 4\n")), format!("compile={}", esc("include \"c08-a.xeh\"")), "run".to_string(), "perr".to_string()]),
+        ("fixed:z85-tail", vec![t("\"#####\" zero85>"), t("\"HelloWorld#####\" zero85>"), "fmt".to_string()]),
+        ("fixed:foreach-empty", vec![t("[ ] foreach I loop { } foreach I loop depth"), "fmt".to_string()]),
+        ("fixed:empty-source-error", vec![t(""), "perr".to_string(), "compile=".to_string(), "run".to_string(), "perr".to_string()]),
+        ("fixed:deep-let-pattern", vec![t(&format!("[ ] let {}", "[ ".repeat(40_000)))]),
+    ] {
+        fixed.push((name.into(), steps));
+    }
+    let long_e: String = std::iter::repeat('é').take(38).collect();
+    fixed.push(("fixed:split75".into(), vec![t(&format!("\"{}\" error", long_e)), "perr".into(), t(&format!("\"{}\"", long_e)), "fmt".into()]));
+    for (name, steps) in fixed {
+        ctx.tag(&format!("text:{}", name.split(':').next().unwrap()));
+        let line = format!("T\t0\t{}", steps.join("\t"));
+        let shown = format!("text: {} state=fresh steps: {}", name, steps.iter().map(|s| unesc_shown(s)).collect::<Vec<_>>().join(" ; "));
+        plan.push(line, shown);
+    }
+}
+
+fn plan_texts(ctx: &mut Ctx, words: &[String], n: usize, plan: &mut Plan) {
+    // the soups never name the shadowed words' originals — they are shadowed in the child anyway
+    let soup_words: Vec<String> = words.iter().filter(|w| !DESTRUCTIVE.contains(&w.as_str())).cloned().collect();
+    for i in 0..n {
+        let mut r = ctx.rng.fork();
+        let kind = r.below(100);
+        let mut long_limits = false;
+        let (text, tag): (String, &str) = match kind {
+            0..=19 => (gen_soup(&mut r, &soup_words), "soup"),
+            20..=24 => {
+                let k = r.below(3);
+                let p = match k { 0 => gen_bitprog(&mut r), 1 => gen_fmtprog(&mut r), _ => gen_d2prog(&mut r) };
+                (mutate(&mut r, &p, &soup_words), "focused-mutated")
+            }
+            25..=44 => {
+                let p = gen_program(&mut r, &soup_words, 0);
+                if r.chance(15) { (mutate(&mut r, &p, &soup_words), "program-mutated") } else { (p, "program") }
+            }
+            45..=59 => {
+                let p = gen_let(&mut r);
+                if r.chance(15) { (mutate(&mut r, &p, &soup_words), "let-mutated") } else { (p, "let") }
+            }
+            60..=67 => (gen_enum(&mut r), "enum"),
+            68..=77 => (gen_meta(&mut r, &soup_words), "meta"),
+            78..=80 => (gen_utf8(&mut r), "utf8"),
+            81 => {
+                let big = if ctx.thorough { r.chance(5) } else { i % 5 == 0 };
+                (gen_long_token(&mut r, big), "long-token")
+            }
+            82..=83 => (gen_bitprog(&mut r), "bitprog"),
+            84..=85 => (gen_fmtprog(&mut r), "fmtprog"),
+            86..=87 => (gen_d2prog(&mut r), "d2prog"),
+            88..=93 => {
+                // guarded allocation words inside loops / with computed sizes
+                let p = format!(
+                    "{} {}",
+                    r.pick(&[
+                        "1000 random-bits", "999999 random-bits length", "0 random-bits", "5 1000000 int!", "-1 999 uint!", "5 0 int!", "30 40 d2-resize d2-capture-rgba length",
+                        "1000 1 d2-resize 0 0 d2-data", "0 0 d2-resize d2-capture-rgba", "1000 random-bits open-bitstr 3 bits 64 uint", "7 random-bits open-bitstr 7 int",
+                        "100 8 * random-bits open-bitstr 5 bits drop nulbytestr cstr",
+                    ]),
+                    gen_soup(&mut r, &soup_words)
+                );
+                (p, "alloc-modest")
+            }
+            _ => {
+                let big = if ctx.thorough { r.chance(3) } else { i % 7 == 0 };
+                let (s, t) = gen_nesting(&mut r, big);
+                long_limits = r.chance(40);
+                (s, t)
+            }
+        };
+        ctx.tag(&format!("text:{}", tag));
+        let (line, shown) = text_case(&mut r, &text, long_limits);
+        plan.push(line, shown);
+    }
+}
+
+// ------------------------------------------------------------------------------------------------
+// classification of crashes
+// ------------------------------------------------------------------------------------------------
+fn has_loop_or_def(shown: &str) -> bool {
+    [" do ", "begin", " : ", "=: ", "foreach", "~)"].iter().any(|p| shown.contains(p))
+}
+
+fn nesting_tokens(shown: &str) -> usize {
+    shown.split(|c: char| c == ' ' || c == '\\' || c == '\t').filter(|t| matches!(*t, "[" | "{" | "^{" | "eval=[" | "eval={" | "compile=[" | "compile={")).count()
+}
+
+/// nesting depth of the pattern that follows a `let` in the (full, unabridged) case text
+fn let_pattern_depth(text: &str) -> Option<usize> {
+    let toks: Vec<&str> = text.split(|c: char| c == ' ' || c == '\\' || c == '\t').collect();
+    let mut best = None;
+    let mut i = 0;
+    while i < toks.len() {
+        if toks[i] == "let" || toks[i].ends_with("=let") {
+            let (mut d, mut m) = (0usize, 0usize);
+            for t in &toks[i + 1..] {
+                match *t {
+                    "[" | "{" => {
+                        d += 1;
+                        m = m.max(d);
+                    }
+                    "]" | "}" => {
+                        if d == 0 {
+                            break;
+                        }
+                        d -= 1;
+                    }
+                    "^" => m = m.max(d + 1),
+                    _ => {}
+                }
+            }
+            best = Some(best.unwrap_or(0).max(m));
+        }
+        i += 1;
+    }
+    best
+}
+
+/// prefix decided from the input and the crash kind (known_findings.json matches on these)
+fn finding_prefix(shown: &str, kind: &str, msg: &str) -> &'static str {
+    if kind == "panic" && msg.contains("total order") {
+        return "[incomparable-sort] ";
+    }
+    if kind.starts_with("stack-overflow") {
+        if let Some(d) = let_pattern_depth(shown) {
+            if d > 1000 {
+                return "[deep-let-pattern] ";
+            }
+        }
+        let builds = ["collect", "push", "insert", "with-tags", "]", "}"].iter().any(|w| shown.contains(w));
+        if (has_loop_or_def(shown) && builds) || nesting_tokens(shown) >= 5000 {
+            return "[deep-nesting] ";
+        }
+    }
+    ""
+}
+
+// ------------------------------------------------------------------------------------------------
+// the small correspondence part: outcome class of the modelled arithmetic words
+// ------------------------------------------------------------------------------------------------
+const ARITH: &[(&str, usize)] = &[
+    ("+", 2), ("-", 2), ("*", 2), ("/", 2), ("rem", 2), ("min", 2), ("max", 2), ("<", 2), ("<=", 2), (">", 2), (">=", 2), ("==", 2), ("<>", 2), ("band", 2), ("bor", 2), ("bxor", 2),
+    ("bsl", 2), ("bsr", 2), ("and", 2), ("or", 2), ("xor", 2), ("neg", 1), ("abs", 1), ("bnot", 1), ("popcnt", 1), ("round", 1), (">int", 1), (">real", 1), ("zero?", 1), ("positive?", 1),
+    ("negative?", 1), ("not", 1),
+];
+
+fn arith_class(base: &Xstate, word: &str, args: &[Cell]) -> String {
+    let mut xs = base.clone();
+    let r = crate::guarded(|| {
+        for a in args {
+            xs.push_data(a.clone()).unwrap();
+        }
+        xs.eval(word)
+    });
+    match r {
+        None => "panic".into(),
+        Some(Ok(())) => "ok".into(),
+        Some(Err(_)) => "err".into(),
+    }
+}
+
+fn arith_correspondence(ctx: &mut Ctx) {
+    let base = Xstate::boot().unwrap();
+    let bi = boundary_ints();
+    let br = boundary_reals();
+    let mut emit = |ctx: &mut Ctx, w: &str, args: Vec<Cell>| {
+        let out = arith_class(&base, w, &args);
+        ctx.tag(&format!("arith:{}", out));
+        let case = format!("C08 arith {} {}", w, canon::stack_str(&args)).trim_end().to_string();
+        if out == "panic" {
+            ctx.oracle_fail(case.clone(), "a result or an error value, never a panic".into(), "panic".into());
+        } else {
+            ctx.oracle_ok();
+        }
+        ctx.case(case, out);
+    };
+    // every word on the operands that used to panic and on the extremes
+    let ext = [0i128, 1, -1, i128::MIN, i128::MAX, 127, 128, -128, 1 << 64];
+    for (w, ar) in ARITH {
+        if *ar == 2 {
+            for a in ext {
+                for b in ext {
+                    emit(ctx, w, vec![Cell::Int(a), Cell::Int(b)]);
+                }
+            }
+            for a in [0.0, -0.0, f64::NAN, f64::INFINITY, 1e300, 5e-324] {
+                for b in [0.0, f64::NAN, f64::NEG_INFINITY, -1e300] {
+                    emit(ctx, w, vec![Cell::Real(a), Cell::Real(b)]);
+                }
+            }
+        } else {
+            for a in bi.iter() {
+                emit(ctx, w, vec![Cell::Int(*a)]);
+            }
+            for a in br.iter() {
+                emit(ctx, w, vec![Cell::Real(*a)]);
+            }
+        }
+    }
+    let n = if ctx.thorough { 60_000 } else { 3_000 };
+    for _ in 0..n {
+        let (w, ar) = *ctx.rng.pick(ARITH);
+        let ar = if ctx.rng.chance(5) { ctx.rng.below(3) } else { ar };
+        let mut args = Vec::new();
+        for _ in 0..ar {
+            let r = &mut ctx.rng;
+            let c = match r.below(8) {
+                0..=2 => Cell::Int(gen_int(r)),
+                3 | 4 => Cell::Real(gen_real(r)),
+                5 => {
+                    let c = Cell::Int(gen_int(r));
+                    tag_it(r, c)
+                }
+                6 => Cell::Flag(r.bool()),
+                _ => gen_other(r),
+            };
+            args.push(c);
+        }
+        emit(ctx, w, args);
+    }
+}
+
+// ------------------------------------------------------------------------------------------------
+// entry point
+// ------------------------------------------------------------------------------------------------
+fn immediate_words(words: &[String]) -> Vec<String> {
+    let mut xs = Xstate::boot().unwrap();
+    let _ = xeh::d2_plugin::load(&mut xs);
+    xs.intercept_stdout(true);
+    let mut v = Vec::new();
+    for w in words {
+        let _ = xs.read_stdout();
+        if xs.eval(&format!("see {}", w)).is_ok() {
+            if xs.read_stdout().unwrap_or_default().contains("#immediate") {
+                v.push(w.clone());
+            }
+        }
+    }
+    v
+}
+
+#[derive(Default)]
+struct Agg {
+    /// crash signature → (count, smallest witness, observed)
+    sigs: BTreeMap<String, (u64, String, String)>,
+    slowest: (u64, String),
+    per_word: BTreeMap<String, u64>,
+    cases: u64,
+}
+
+/// run a plan in child processes and fold the results into the evidence; returns, per word, the
+/// argument tuples on which the word reported `StackUnderflow` (it wants more arguments)
+fn execute(ctx: &mut Ctx, dir: &str, plan: Plan, agg: &mut Agg, workers: usize, batch: usize) -> BTreeMap<usize, Vec<Vec<usize>>> {
+    let mut hungry: BTreeMap<usize, Vec<Vec<usize>>> = BTreeMap::new();
+    if plan.len() == 0 {
+        return hungry;
+    }
+    let res = run_all(dir, &plan.lines, batch, workers);
+    for (i, r) in res.iter().enumerate() {
+        let shown = &plan.shown[i];
+        agg.cases += 1;
+        if let Some((_, _)) = &plan.meta[i] {
+            let word = plan.lines[i].split('\t').nth(4).map(unesc).unwrap_or_default();
+            *agg.per_word.entry(word).or_insert(0) += 1;
+        }
+        match r {
+            Res::Done(s) => {
+                let (ms, s) = s.split_once(' ').unwrap_or(("0", s.as_str()));
+                let ms: u64 = ms.parse().unwrap_or(0);
+                if ms > agg.slowest.0 {
+                    agg.slowest = (ms, shown.chars().take(300).collect());
+                }
+                if ms >= 1000 {
+                    ctx.tag("slow:>=1s");
+                }
+                let parts: Vec<&str> = s.split('\x01').collect();
+                // parts[0] = outcome class (or "panic"), then (stage, message) pairs
+                ctx.tag(&format!("outcome:{}", parts[0]));
+                if parts[0] == "err:StackUnderflow" {
+                    if let Some((w, a)) = &plan.meta[i] {
+                        hungry.entry(*w).or_default().push(a.clone());
+                    }
+                }
+                if shown.contains(" fixed:include-cycle") && !parts[0].starts_with("err") {
+                    // the repaired include recursion must be refused with an error value
+                    ctx.oracle_fail(shown.clone(), "an error value (include nesting too deep)".into(), parts[0].to_string());
+                    continue;
+                }
+                if parts.len() == 1 {
+                    ctx.oracle_ok();
+                    continue;
+                }
+                for pm in parts[1..].chunks(2) {
+                    let stage_ = pm[0];
+                    let msg = unesc(pm.get(1).copied().unwrap_or(""));
+                    if alloc_escape(&plan.lines[i]) && (msg.contains("capacity overflow") || (msg.contains("d2_plugin.rs") && msg.contains("multiply"))) {
+                        ctx.tag("skipped:alloc");
+                        continue;
+                    }
+                    ctx.tag(&format!("panic-in:{}", stage_));
+                    let prefix = finding_prefix(&plan.lines[i], "panic", &msg);
+                    let sig = format!("{}panic: {}", prefix, msg);
+                    let e = agg.sigs.entry(sig).or_insert((0, String::new(), String::new()));
+                    e.0 += 1;
+                    if e.1.is_empty() || shown.len() < e.1.len() {
+                        e.1 = format!("{}{}", prefix, shown);
+                        e.2 = format!("panic in `{}`: {}", stage_, msg);
+                    }
+                }
+            }
+            Res::Died(kind, detail) => {
+                if kind.starts_with("alloc-abort") && shown.starts_with("text:") && has_loop_or_def(&plan.lines[i]) {
+                    // a looping program that grows a value until the allocator gives up: outside the
+                    // property's precondition (allocation sizes are not modest)
+                    ctx.tag("skipped:alloc-growth");
+                    continue;
+                }
+                let k0 = kind.split(' ').next().unwrap_or("");
+                if alloc_escape(&plan.lines[i]) && (k0 == "alloc-abort" || k0 == "hang") {
+                    ctx.tag("skipped:alloc");
+                    continue;
+                }
+                ctx.tag(&format!("outcome:process-died:{}", k0));
+                let prefix = finding_prefix(&plan.lines[i], kind, detail);
+                let what = if prefix.is_empty() { died_class(shown) } else { String::new() };
+                let sig = format!("{}died: {} {}", prefix, k0, what);
+                let e = agg.sigs.entry(sig).or_insert((0, String::new(), String::new()));
+                e.0 += 1;
+                if e.1.is_empty() || shown.len() < e.1.len() {
+                    e.1 = format!("{}{}", prefix, shown);
+                    e.2 = format!("process died ({}): {}", kind, detail);
+                }
+            }
+        }
+    }
+    hungry
+}
+
+/// a text that names one of the four allocating words can still reach the real word with a huge size
+/// (the clamping wrapper is bypassed when a failed call is re-executed by `next`/`run` on the cells
+/// underneath): an allocator abort, a time-out or a size-overflow panic of such a text is the excluded
+/// "immodest allocation request", not a failure
+fn alloc_escape(line: &str) -> bool {
+    line.starts_with("T\t") && ["random-bits", "int!", "uint!", "d2-resize"].iter().any(|w| line.contains(w))
+}
+
+/// coarse class of a case whose process died, so that one mechanism gives one signature
+fn died_class(shown: &str) -> String {
+    if let Some(r) = shown.strip_prefix("word×args: ") {
+        // the word
+        return r.split("eval(").nth(1).map(|x| x.chars().take_while(|c| *c != ')').collect()).unwrap_or_default();
+    }
+    for k in ["let [", "let {", "let ^", "let"] {
+        if shown.contains(k) {
+            return format!("text with `{}`", k);
+        }
+    }
+    shown.chars().take(60).collect()
+}
+
+pub fn run(ctx: &mut Ctx) {
+    let args: Vec<String> = std::env::args().collect();
+    if let Some(b) = args.get(6).and_then(|a| a.strip_prefix("child:")) {
+        child_main(b);
+        return;
+    }
+    let outdir = args.get(5).cloned().unwrap_or_else(|| ".".into());
+    let dir = format!("{}/c08tmp.{}{}", outdir, std::process::id(), if ctx.release { ".release" } else { "" });
+    std::fs::create_dir_all(&dir).unwrap();
+    let dir = std::fs::canonicalize(&dir).unwrap().to_string_lossy().to_string();
+
+    // the dictionary is read at run time: new words are covered without touching this file
+    let mut words: Vec<String> = {
+        let mut xs = Xstate::boot().unwrap();
+        xeh::d2_plugin::load(&mut xs).unwrap();
+        xs.word_list().iter().map(|w| w.to_string()).collect()
+    };
+    words.sort();
+    words.dedup();
+    let imm = immediate_words(&words);
+    ctx.note(format!("dictionary: {} distinct words ({} immediate), {} argument values in {} classes", words.len(), imm.len(), values().len(), {
+        let mut c: Vec<&str> = values().iter().map(|v| v.class).collect();
+        c.sort();
+        c.dedup();
+        c.len()
+    }));
+    ctx.note("C08 exploration is search, not proof: a clean run shows that no crash was found among the cases counted here, nothing more".into());
+    let vals = values();
+    let workers = std::env::var("C08_WORKERS").ok().and_then(|s| s.parse().ok()).unwrap_or(if ctx.thorough { 10 } else { 6 });
+    let mut agg = Agg::default();
+    let nw = words.len();
+
+    // round 0: fixed texts (known findings, regression witnesses of repaired defects)
+    let mut plan = Plan::default();
+    plan_fixed_texts(&mut plan, ctx);
+    execute(ctx, &dir, plan, &mut agg, workers, 2000);
+
+    // round 1: arity 0 and 1, complete
+    let mut plan = Plan::default();
+    plan_arity01(ctx, &words, &vals, &mut plan);
+    let hungry1 = execute(ctx, &dir, plan, &mut agg, workers, 2000);
+
+    if ctx.thorough {
+        // rounds 2/3 (thorough): full arity-2 product, arity 3 guided by it plus the full class product
+        let mut hungry2: BTreeMap<usize, Vec<Vec<usize>>> = BTreeMap::new();
+        let step = 12;
+        let mut w0 = 0;
+        while w0 < nw {
+            let w1 = (w0 + step).min(nw);
+            let mut plan = Plan::default();
+            plan_full2(ctx, &words, &vals, w0..w1, &mut plan);
+            plan_full3_classes(ctx, &words, &vals, w0..w1, &mut plan);
+            for (w, t) in execute(ctx, &dir, plan, &mut agg, workers, 2000) {
+                hungry2.entry(w).or_default().extend(t.into_iter().filter(|t| t.len() == 2));
+            }
+            w0 = w1;
+        }
+        let mut plan = Plan::default();
+        plan_guided(ctx, &words, &vals, &hungry2, 40_000, &mut plan);
+        execute(ctx, &dir, plan, &mut agg, workers, 2000);
+    } else {
+        // rounds 2/3 (quick): sampled, guided by which argument tuples left the word asking for more
+        let cap2 = (ctx.n / 2 / hungry1.len().max(1)).max(10);
+        let cap3 = (ctx.n / 5 / nw.max(1)).max(5);
+        let mut plan = Plan::default();
+        let hungry1: BTreeMap<usize, Vec<Vec<usize>>> = hungry1.into_iter().map(|(w, t)| (w, t.into_iter().filter(|t| t.len() == 1).collect::<Vec<_>>())).filter(|(_, t)| !t.is_empty()).collect();
+        plan_guided(ctx, &words, &vals, &hungry1, cap2, &mut plan);
+        let hungry2 = execute(ctx, &dir, plan, &mut agg, workers, 2000);
+        let hungry2: BTreeMap<usize, Vec<Vec<usize>>> = hungry2.into_iter().map(|(w, t)| (w, t.into_iter().filter(|t| t.len() == 2).collect::<Vec<_>>())).filter(|(_, t)| !t.is_empty()).collect();
+        let mut plan = Plan::default();
+        plan_guided(ctx, &words, &vals, &hungry2, cap3, &mut plan);
+        execute(ctx, &dir, plan, &mut agg, workers, 2000);
+    }
+    let mut plan = Plan::default();
+    let n_rand = if ctx.thorough { 400_000 } else { ctx.n / 12 };
+    plan_random(ctx, &words, &vals, n_rand, &mut plan);
+    execute(ctx, &dir, plan, &mut agg, workers, 2000);
+    let n_word_cases = agg.cases;
+
+    // texts, in chunks (a chunk of deep-nesting texts can be large)
+    let n_texts = if ctx.thorough { 500_000 } else { (ctx.n / 8).max(200) };
+    let mut done = 0;
+    while done < n_texts {
+        let k = (n_texts - done).min(50_000);
+        let mut plan = Plan::default();
+        plan_texts(ctx, &words, k, &mut plan);
+        execute(ctx, &dir, plan, &mut agg, workers, 250);
+        if ctx.thorough {
+            eprintln!("C08: {} of {} texts done", done + k, n_texts);
+        }
+        done += k;
+    }
+    ctx.note(format!("ran: {} word×argument cases (incl. fixed texts), {} generated texts", n_word_cases, n_texts));
+    let min_cov = agg.per_word.values().min().copied().unwrap_or(0);
+    let uncovered: Vec<&String> = words.iter().filter(|w| !agg.per_word.contains_key(*w) && !DESTRUCTIVE.contains(&w.as_str())).collect();
+    ctx.note(format!("word coverage: {} of {} words exercised by word×argument cases (min {} cases per word); not exercised: {:?}; excluded: {:?}", agg.per_word.len(), nw, min_cov, uncovered, DESTRUCTIVE));
+    if std::env::var("C08_KEEP").is_err() {
+        let _ = std::fs::remove_dir_all(&dir);
+    }
+    ctx.note(format!("slowest case: {} ms: {}", agg.slowest.0, agg.slowest.1));
+    let profile = if ctx.release { "release" } else { "debug" };
+    for (_sig, (count, case, observed)) in std::mem::take(&mut agg.sigs) {
+        ctx.oracle_fail(case, "every call returns a result or an error value; the process never panics, aborts or traps".into(), format!("{} [{} case(s) with this signature, {} profile]", observed, count, profile));
+    }
+    arith_correspondence(ctx);
+}
